@@ -1,33 +1,50 @@
 """C09 — a merged store equals the concatenation of its inputs.
 
-All rules are decided on *provenance*, not on statement shapes: scalar values are followed along the symbolic paths
-of a function (guard clauses, temporaries, hoisted values, tuple / NamedTuple packing, private helpers of the module
-are looked through - `sa.rules.c07.Sym`), list values are followed as "order-preserving image of a source list with
-element function f" (`Prov`): through `list()/tuple()`, comprehensions and generator expressions without filter,
-`zip/enumerate`, accumulator loops (`acc = []; for x in S: ...; acc.append(E)` with exactly one append per iteration)
-and helper parameters.  `sorted/set/reversed`, slices, filters and in-place `.sort()/.reverse()/shuffle` break the
-image.  A derivation the engine does not know is UNDECIDED, never a violation.
+Three kinds of decision procedure, none of them tied to a statement shape:
+
+* provenance (`Prov`): list values are followed as "order-preserving image of a source list with element function f"
+  through `list()/tuple()`, comprehensions and generator expressions without filter, `zip/enumerate/map`, accumulator
+  loops (`acc = []; for x in S: ...; acc.append(E)` with exactly one append per iteration, also a hand-written running
+  sum), single assignments, NamedTuple / tuple packing and helper parameters; scalar values along the symbolic paths of
+  a function (`sa.rules.c07.Sym`).  `sorted/set/reversed`, directory listings (`glob/iterdir/os.listdir`), slices,
+  filters and in-place `.sort()/.reverse()/shuffle` break the image - definitely.  A derivation the engine does not
+  know is UNDECIDED, never a violation.
+* bounded interpretation (`TruthTable`): `merge` and the merged-index builder are *interpreted* (an abstract
+  interpreter over the AST - nothing of the repository is imported or run) on model inputs, exhaustively within small
+  bounds: every sequence of up to 3 inputs that are identified / unidentified, every sequence of up to 3 inputs with
+  field-set names {base} / {base, x} / {base, y}, every tuple of up to 3 parts with 1..3 trajectories.  Only what
+  the code computes from constants and from what the tables vary has a value; paths, files and library calls are
+  opaque; a branch on an opaque test forks, and a raise that hangs on such a branch is somebody else's refusal; a
+  branch on something read from an input store that the model does not know is UNDECIDED.  Helpers (private functions
+  of the module, nested functions, lambdas) are entered.
+* symbolic paths (`Sym`) with exact normal forms for the locate arithmetic.
 
 R1  order preservation.  (a) `_check_merge_arguments` returns, on every return path, the caller's list element for
     element, or the inclusive ascending expansion `range(first, last + 1)` of the numbered pattern.  (b) In `merge`
     the `stores` entry of the metadata document, the list handed to the merged-index builder and the relocation loop
     are images of that returned list (relocation: of all its elements, in any order).  (c) `_open_merged_store`
     derives file paths, datasets, dimensions, variables, every group list and the cumulative size table from
-    `metadata['stores']` through order-preserving images only; the size table is the running sum of the lengths of
-    exactly the dimensions stored next to it.
-R2  refusals present (their position before any file-system effect is C10-R2): some raise path of `merge` is taken
-    whenever an input's field-set names differ from the reference taken from the first input (a symmetric test, and
-    the reference is bound only while it is still unset), and whenever identified and unidentified inputs are mixed
-    (aggregate all/any test, or a per-input test that covers both mixed cases - decided by truth table).
+    `metadata['stores']` through order-preserving images only; the size table is the running sum (accumulate / cumsum /
+    hand-written) of the lengths of exactly the dimensions stored next to it.
+R2  refusals present (their position before any file-system effect is C10-R2), by bounded interpretation of `merge`:
+    every sequence of up to three inputs whose field-set names are not all equal reaches a raise (subset, superset and
+    same-size-different-names cases, in every position), and so does every sequence that mixes identified and
+    unidentified inputs; the uniform sequences are accepted.  A failing `assert` is not a refusal.
 R3  locate arithmetic, per path of `_load_trajectory` to a record read under "size table exists": the file position
     is bisect_left(table, index + 1) / bisect_right(table, index) of the table of the *same* file set whose groups
     are read, the position is bounded before use, and the record index is the requested index relative to the located
-    file (index - table[file]; index - table[file] + len(dim[file]); index - table[file - 1] behind file > 0).
+    file (index - table[file]; index - table[file] + len(dim[file]); index - table[file - 1] behind file > 0; the index
+    itself behind file == 0).
 R4  the metadata records, per input, (the base name under which the input is moved into the output directory, the
-    length of the store opened on that input); the relocation moves the input itself to <output>/<that name>.
-R5  merged index offsets (C08-R3).
-R6  the merged index is built under exactly the condition "every input is identified" (the reader of a merged store
-    consults nothing else): every guard of the builder call is that condition or holds for every number of inputs.
+    length of the store opened on that input) - as a pair or a NamedTuple; the relocation moves the input itself to
+    <output>/<that name>.
+R5  merged index (C08-R3).  (a) The stores the builder opens and walks are an order-preserving image of one of its
+    parameters, and the argument merge passes for it is an image of the checked input list; the store opened at step k
+    is made from input k.  (b) By bounded interpretation of the builder on model parts: what it stores into the two
+    index variables maps every flight identifier (ascending) to the position of its trajectory in the concatenation of
+    the parts in the order given.  (When (b) cannot be decided the shape rule `c08.rule_offsets` is used.)
+R6  the merged index is built for every uniformly identified sequence of 1..3 inputs and for no unidentified one (the
+    reader of a merged store consults nothing else) - by the same interpretation of `merge` as R2.
 """
 
 from __future__ import annotations
@@ -35,18 +52,22 @@ from __future__ import annotations
 import ast
 import copy
 
-from ..astutil import (MUTATING_METHODS, ancestors, arg_or_kw, assigned_names, call_name, conjuncts, eval_pred,
-                       guards_of, kwarg, norm, stmt_of, walk_no_nested)
+from ..astutil import (MUTATING_METHODS, ancestors, arg_or_kw, assigned_names, call_name, kwarg, norm, stmt_of,
+                       walk_no_nested)
 from ..loader import parent
-from ..resolve import resolve_class_call
-from .c07 import Sym, SymUndecided, _base_id, _diff, _is_name, _nf, _strip, canon_fact, locate_paths
+from ..resolve import resolve_call, resolve_class_call
+from .c07 import Sym, SymUndecided, _base_id, _diff, _is_name, _nf, _strip, locate_paths
 
 STORE = 'trajectories/store.py'
 ELEM = '__elem__'
+RUNSUM = '__running_sum__'
 REORDERING = {'sorted': 'sorted() re-orders the elements', 'set': 'a set has no order and drops repeats',
               'frozenset': 'a set has no order and drops repeats', 'reversed': 'reversed() inverts the order',
               'random.sample': 'random.sample() re-orders', 'dict.fromkeys': 'drops repeats'}
 TRANSPARENT = {'list', 'tuple', 'iter', 'copy.copy'}
+LISTING_FUNCS = {'os.listdir', 'os.scandir', 'os.walk', 'glob.glob', 'glob.iglob', 'listdir', 'scandir'}
+LISTING_METHODS = {'glob', 'rglob', 'iterdir'}
+LISTING_WHY = 'a directory listing comes in the order of the file system, not in the order in which the inputs were given'
 
 
 # ------------------------------------------------------------------------------------------------ provenance
@@ -152,6 +173,11 @@ class Prov:
                 return n
         return T().visit(copy.deepcopy(e))
 
+    def is_named_tuple(self, c: ast.Call) -> bool:
+        name = call_name(c).split('.')[-1]
+        cls = next((k for q, k in self.m.classes.items() if q.split('.')[-1] == name), None)
+        return cls is not None and any(str(b).split('.')[-1] == 'NamedTuple' for b in getattr(cls, 'base_exprs', []))
+
     def _record_fields(self, c: ast.Call):
         name = call_name(c).split('.')[-1]
         cls = next((k for q, k in self.m.classes.items() if q.split('.')[-1] == name), None)
@@ -186,10 +212,14 @@ class Prov:
             if isinstance(s, Broken):
                 return s
             return Seq(s.src, self.simp(subst(e.elt, bind_target(g.target, s.elem))))
+        if isinstance(e, (ast.SetComp, ast.Set)):
+            return Broken('a set has no order and drops repeats', True)
         if isinstance(e, ast.Call):
             cn = call_name(e)
             if cn in REORDERING:
                 return Broken(f'{cn}(): {REORDERING[cn]}', True)
+            if cn in LISTING_FUNCS or (isinstance(e.func, ast.Attribute) and e.func.attr in LISTING_METHODS):
+                return Broken(f'{cn}(): {LISTING_WHY}', True)
             if cn in TRANSPARENT and len(e.args) == 1 and not e.keywords:
                 return self.seq(e.args[0], depth + 1)
             if isinstance(e.func, ast.Attribute) and e.func.attr == 'copy' and not e.args:
@@ -259,6 +289,19 @@ class Prov:
         empty = len(inits) == 1 and ((isinstance(inits[0].value, ast.List) and not inits[0].value.elts)
                                      or (isinstance(inits[0].value, ast.Call) and call_name(inits[0].value) == 'list'
                                          and not inits[0].value.args))
+        if len(inits) == 1 and not empty and not appends:
+            # bound once to a value that is itself an image (comprehension, conversion, another list)
+            try:
+                hits = self.sym(fn, lambda n: n is inits[0]).hits
+            except SymUndecided as ex:
+                return Broken(str(ex), False)
+            vals = {norm(h.ev(inits[0].value)): h.ev(inits[0].value) for h in hits}
+            if len(vals) != 1:
+                return Broken(f'the value bound to `{base}` differs between paths', False)
+            s = self.seq(next(iter(vals.values())), depth + 1)
+            if isinstance(s, Seq):
+                self.lists.add(base)
+            return s
         if not empty or len(appends) != 1:
             return Broken(f'`{base}` is not a list filled by one append per iteration', False)
         st, arg = appends[0]
@@ -280,7 +323,56 @@ class Prov:
         if isinstance(s, Broken):
             return s
         self.lists.add(base)
-        return Seq(s.src, self.simp(subst(next(iter(vals.values())), bind_target(loop.target, s.elem, f'@{loop.lineno}'))))
+        val = next(iter(vals.values()))
+        run = self._running_sum(fn, loop, val)
+        if run is not None:
+            val = ast.Call(func=ast.Name(id=RUNSUM, ctx=ast.Load()), args=[run], keywords=[])
+        return Seq(s.src, self.simp(subst(val, bind_target(loop.target, s.elem, f'@{loop.lineno}'))))
+
+    def _running_sum(self, fn, loop, val: ast.expr):
+        """E when the appended value is `T + E` with T a counter that starts at 0 before the loop and is advanced by exactly
+        that E once per iteration (so that the list is the running sum of E), else None"""
+        if not (isinstance(val, ast.BinOp) and isinstance(val.op, ast.Add)):
+            return None
+        tag = f'@{loop.lineno}'
+        for t, e in ((val.left, val.right), (val.right, val.left)):
+            if not (isinstance(t, ast.Name) and t.id.endswith(tag)):
+                continue
+            T = _base_id(t.id)
+            if any(isinstance(x, ast.Name) and _base_id(x.id) == T for x in ast.walk(e)):
+                continue
+            writes = [x for x in walk_no_nested(fn.node)
+                      if (isinstance(x, (ast.Assign, ast.AnnAssign)) and getattr(x, 'value', None) is not None
+                          and T in [n for tg in (x.targets if isinstance(x, ast.Assign) else [x.target]) for n in assigned_names(tg)])
+                      or (isinstance(x, ast.AugAssign) and _is_name(x.target, T))
+                      or (isinstance(x, (ast.For, ast.AsyncFor)) and T in assigned_names(x.target))]
+            inside = [x for x in writes if any(x is b for b in loop.body)]
+            outside = [x for x in writes if x not in inside]
+            if len(inside) != 1 or len(outside) != 1 or len(writes) != 2:
+                continue
+            o = outside[0]
+            zero = isinstance(o, (ast.Assign, ast.AnnAssign)) and isinstance(o.value, ast.Constant) and o.value.value == 0 \
+                and not isinstance(o.value.value, bool) and o.lineno < loop.lineno \
+                and not any(isinstance(a, (ast.For, ast.AsyncFor, ast.While, ast.If)) for a in ancestors(o))
+            if not zero:
+                continue
+            # the value of T at the end of the iteration is the appended value
+            st_in = inside[0]
+            adv = None
+            if isinstance(st_in, ast.AugAssign) and isinstance(st_in.op, ast.Add):
+                adv = st_in.value
+            elif isinstance(st_in, ast.Assign) and isinstance(st_in.value, ast.BinOp) and isinstance(st_in.value.op, ast.Add):
+                l, r = st_in.value.left, st_in.value.right
+                adv = r if _is_name(l, T) else (l if _is_name(r, T) else None)
+            if adv is None:
+                continue
+            try:
+                hs = self.sym(fn, lambda n, st_in=st_in: n is st_in).hits
+            except SymUndecided:
+                continue
+            if hs and all(_strip(h.ev(adv)) == _strip(e) for h in hs):
+                return e
+        return None
 
 
 def _enclosing_loop(n: ast.AST):
@@ -292,10 +384,6 @@ def _opened_path(e: ast.expr) -> ast.expr | None:
     if isinstance(e, ast.Call) and (call_name(e).endswith(('.open', '.append')) or call_name(e).endswith('TrajectoryStore')):
         return arg_or_kw(e, 0, 'base_file')
     return None
-
-
-def _about_groups(e: ast.AST) -> bool:
-    return any(isinstance(x, ast.Attribute) and x.attr == 'index_group' for x in ast.walk(e))
 
 
 def _decide(ctx, rule, fn, what, s, want_elem=None, line=0):
@@ -324,27 +412,58 @@ def run(ctx):
     rule_locate_arith(ctx, prog, m)
     # R5 flight-identifier lookup across parts: the merged index offsets (shared with C08-R3)
     from .c08 import rule_offsets
-    rule_offsets(ctx, m, rule='C09-R5')
+    rule_index_walk(ctx, prog, m, 'C09-R5')
+    rule_merged_index(ctx, prog, m, 'C09-R5')
     ctx.assumptions += ['netCDF4 resolves a negative record index against the (static) dimension length of a read-only file']
 
 
-def rule_check_arguments(ctx, prog, m):
-    """R1a: what _check_merge_arguments returns"""
-    chk = m.func('TrajectoryStore._check_merge_arguments')
-    cands = [p for p in chk.params if 'stores' in p and 'pattern' not in p and 'range' not in p]
-    lst = cands[0] if cands else (chk.params[1] if len(chk.params) > 1 else None)
-    prov = Prov(ctx, prog, m, chk, lambda e: 'the input list' if _is_name(e, lst) else None)
+def _check_fn(m):
+    """`_check_merge_arguments`, or None when the argument checks were merged into `merge` itself"""
     try:
-        sym = prov.sym(chk)
+        return m.func('TrajectoryStore._check_merge_arguments')
+    except Exception:
+        return None
+
+
+def _list_param(fn):
+    cands = [p for p in fn.params if 'stores' in p and 'pattern' not in p and 'range' not in p and 'output' not in p]
+    return cands[0] if cands else None
+
+
+def _pattern_expansion(v):
+    """the range(...) call when v is a comprehension over a range (the expansion of the numbered pattern)"""
+    if isinstance(v, (ast.ListComp, ast.GeneratorExp)) and len(v.generators) == 1 and not v.generators[0].ifs \
+            and isinstance(v.generators[0].iter, ast.Call) and call_name(v.generators[0].iter) == 'range':
+        return v.generators[0].iter
+    return None
+
+
+def rule_check_arguments(ctx, prog, m):
+    """R1a: the list merge works on is the caller's list, or the inclusive ascending expansion of the numbered pattern:
+    what `_check_merge_arguments` returns - or, when the checks live in `merge` itself, what merge binds to its list
+    parameter"""
+    chk = _check_fn(m)
+    fn = chk if chk is not None else m.func('TrajectoryStore.merge')
+    lst = _list_param(fn) or (fn.params[1] if len(fn.params) > 1 else None)
+    prov = Prov(ctx, prog, m, fn, lambda e: 'the input list' if _is_name(e, lst) else None)
+    try:
+        if chk is not None:
+            sym = prov.sym(chk)
+            vals = [(v, stmt) for st, v, stmt in sym.returns if stmt is not None]
+        else:
+            hits = prov.sym(fn, lambda n: isinstance(n, (ast.Assign, ast.AnnAssign)) and getattr(n, 'value', None) is not None
+                            and any(_is_name(t, lst) for t in (n.targets if isinstance(n, ast.Assign) else [n.target]))).hits
+            vals = [(h.ev(h.node.value), h.node) for h in hits]
     except SymUndecided as ex:
-        ctx.undecided('C09-R1', chk, 'returns', str(ex))
-    rets = [r for r in sym.returns if r[2] is not None]
-    ctx.floor('C09-R1', len(rets), 1, 'returns of _check_merge_arguments')
-    for st, v, stmt in rets:
-        rng = None
-        if isinstance(v, (ast.ListComp, ast.GeneratorExp)) and len(v.generators) == 1 and not v.generators[0].ifs \
-                and isinstance(v.generators[0].iter, ast.Call) and call_name(v.generators[0].iter) == 'range':
-            rng = v.generators[0].iter
+        ctx.undecided('C09-R1', fn, 'returns', str(ex))
+    if chk is not None:
+        ctx.floor('C09-R1', len(vals), 1, 'returns of _check_merge_arguments')
+    seen = set()
+    for v, stmt in vals:
+        if (id(stmt), norm(v)) in seen:
+            continue
+        seen.add((id(stmt), norm(v)))
+        rng = _pattern_expansion(v)
         if rng is not None:
             ok = None
             if len(rng.args) == 2 and isinstance(rng.args[0], ast.Subscript) and isinstance(rng.args[0].slice, ast.Constant):
@@ -352,74 +471,102 @@ def rule_check_arguments(ctx, prog, m):
                 d0 = rng.args[0].slice.value
                 hi = ast.Subscript(value=P, slice=ast.Constant(value=1), ctx=ast.Load())
                 d = _diff(rng.args[1], hi)
-                if isinstance(P, ast.Name) and P.id in chk.params and d is not None:
+                if isinstance(P, ast.Name) and P.id in fn.params and d is not None:
                     ok = d0 == 0 and d == 1
             elif len(rng.args) == 3:
                 d = _nf(rng.args[2])
                 if d is not None and d.is_const() and d.const() < 0:
                     ok = False
             if ok is None:
-                ctx.undecided('C09-R1', chk, _strip(rng), 'pattern expansion range not recognised')
-            ctx.ob('C09-R1', chk, 'numbered pattern expands to the inclusive ascending range', ok,
+                ctx.undecided('C09-R1', fn, _strip(rng), 'pattern expansion range not recognised')
+            ctx.ob('C09-R1', fn, 'numbered pattern expands to the inclusive ascending range', ok,
                    _strip(v)[:120] if ok else 'pattern expansion is not range(first, last + 1) in ascending order',
                    line=stmt.lineno)
             continue
         s = prov.seq(v)
         if isinstance(s, Broken) and not s.definite:
-            ctx.undecided('C09-R1', chk, _strip(v)[:80], s.why)
+            ctx.undecided('C09-R1', fn, _strip(v)[:80], s.why)
         ok = isinstance(s, Seq) and canon(s.elem) == ELEM
-        ctx.ob('C09-R1', chk, f'return {_strip(v)[:80]}', ok,
-               'returns the input list' if ok else 'returns something other than the input list in the order given: '
+        what = 'return' if chk is not None else f'{lst} ='
+        ctx.ob('C09-R1', fn, f'{what} {_strip(v)[:80]}', ok,
+               'the input list' if ok else 'something other than the input list in the order given: '
                + (s.why if isinstance(s, Broken) else f'elements {canon(s.elem)}'), line=stmt.lineno, nontrivial=not ok)
-    for x in walk_no_nested(chk.node):
+    for x in walk_no_nested(fn.node):
         if isinstance(x, ast.Call) and isinstance(x.func, ast.Attribute) and x.func.attr in ('sort', 'reverse') \
                 and _is_name(x.func.value, lst):
-            ctx.ob('C09-R1', chk, norm(x), False, 'the input list is reordered in place', line=x.lineno)
+            ctx.ob('C09-R1', fn, norm(x), False, 'the input list is reordered in place', line=x.lineno)
 
 
 def _merge_prov(ctx, prog, m):
     mg = m.func('TrajectoryStore.merge')
-    chk = m.func('TrajectoryStore._check_merge_arguments')
+    chk = _check_fn(m)
+    lst = _list_param(mg)
 
     def root(e):
-        return 'the checked input list' if isinstance(e, ast.Call) and call_name(e).split('.')[-1] == chk.name else None
-    return mg, Prov(ctx, prog, m, mg, root, opaque={chk.name})
+        if chk is not None:
+            return 'the checked input list' if isinstance(e, ast.Call) and call_name(e).split('.')[-1] == chk.name else None
+        # the checks live in merge: the list is merge's own parameter or the expansion of the numbered pattern (R1a)
+        if _is_name(e, lst) or _pattern_expansion(e) is not None:
+            return 'the checked input list'
+        return None
+    return mg, Prov(ctx, prog, m, mg, root, opaque={chk.name} if chk is not None else ())
+
+
+def _stores_entry(n):
+    """the value written as the `stores` entry of the metadata document by the construct n, or None"""
+    if isinstance(n, ast.Call) and call_name(n) == 'dict' and kwarg(n, 'stores') is not None:
+        return kwarg(n, 'stores')
+    if isinstance(n, ast.Dict):
+        for k, v in zip(n.keys, n.values):
+            if isinstance(k, ast.Constant) and k.value == 'stores':
+                return v
+    if isinstance(n, ast.Assign) and any(isinstance(t, ast.Subscript) and isinstance(t.slice, ast.Constant)
+                                         and t.slice.value == 'stores' for t in n.targets):
+        return n.value
+    return None
 
 
 def rule_merge(ctx, prog, m, mixed_refused=False):
     """R1b, R4, R6: the metadata document, the relocation and the index builder in merge"""
+    recorded = merge_metadata(ctx, prog, m, 'C09-R1', 'C09-R4')
+    merge_relocation(ctx, prog, m, recorded, 'C09-R1', 'C09-R4')
+    merge_builder(ctx, prog, m, mixed_refused, 'C09-R1', 'C09-R6')
+    merge_in_place(ctx, prog, m, 'C09-R1')
+
+
+def merge_metadata(ctx, prog, m, r_order, r_entry=None):
+    """the `stores` entry of the metadata document is an order-preserving image of the checked input list [r_order];
+    each entry is (name under which the input is moved, length of the input) [r_entry].  -> the recorded name, over
+    ELEM (None when the entry is not an image at all)"""
     mg, prov = _merge_prov(ctx, prog, m)
-    out_param = mg.params[0]
-
-    # --- the `stores` entry of the metadata document ------------------------------------------------------
-    def stores_entry(n):
-        if isinstance(n, ast.Call) and call_name(n) == 'dict' and kwarg(n, 'stores') is not None:
-            return kwarg(n, 'stores')
-        if isinstance(n, ast.Dict):
-            for k, v in zip(n.keys, n.values):
-                if isinstance(k, ast.Constant) and k.value == 'stores':
-                    return v
-        if isinstance(n, ast.Assign) and any(isinstance(t, ast.Subscript) and isinstance(t.slice, ast.Constant)
-                                             and t.slice.value == 'stores' for t in n.targets):
-            return n.value
-        return None
-
     try:
-        docs = prov.sym(mg, lambda n: stores_entry(n) is not None).hits
+        docs = prov.sym(mg, lambda n: _stores_entry(n) is not None).hits
     except SymUndecided as ex:
-        ctx.undecided('C09-R1', mg, 'metadata document', str(ex))
-    ctx.floor('C09-R4', len(docs), 1, 'metadata documents with a `stores` entry written by merge')
+        ctx.undecided(r_order, mg, 'metadata document', str(ex))
+    ctx.floor(r_entry or r_order, len(docs), 1, 'metadata documents with a `stores` entry written by merge')
     recorded = None
     seen_docs = set()
     for h in docs:
-        val = h.ev(stores_entry(h.node))
+        val = h.ev(_stores_entry(h.node))
         if (id(h.node), norm(val)) in seen_docs:
             continue
         seen_docs.add((id(h.node), norm(val)))
         s = prov.seq(val)
-        if not _decide(ctx, 'C09-R1', mg, 'metadata `stores` lists the inputs in the order given', s, line=h.node.lineno):
+        if isinstance(s, Broken) and s.definite:
+            ctx.ob(r_order, mg, 'metadata `stores` lists the inputs in the order given', False,
+                   f'{s.why}: the `stores` entry of metadata.json is not the inputs in the order in which they were given. '
+                   f'_open_merged_store lays the files out (and builds the cumulative size table) in metadata order, the merged '
+                   f'flight-identifier index carries offsets in input order: positions and identifiers no longer belong together',
+                   line=h.node.lineno)
+            continue
+        if not _decide(ctx, r_order, mg, 'metadata `stores` lists the inputs in the order given', s, line=h.node.lineno):
             continue
         el = s.elem
+        if isinstance(el, ast.Call) and prov.is_named_tuple(el):
+            # a NamedTuple is written to JSON as the list of its fields, in declaration order
+            f = prov._record_fields(el)
+            if f is not None:
+                el = ast.Tuple(elts=list(f.values()), ctx=ast.Load())
         ok = isinstance(el, (ast.Tuple, ast.List)) and len(el.elts) == 2
         name_ok = len_ok = False
         if ok:
@@ -428,11 +575,17 @@ def rule_merge(ctx, prog, m, mixed_refused=False):
             ln = el.elts[1]
             opened = _opened_path(ln.args[0]) if isinstance(ln, ast.Call) and call_name(ln) == 'len' and len(ln.args) == 1 else None
             len_ok = opened is not None and canon(opened) == ELEM
-        ctx.ob('C09-R4', mg, 'metadata entry per input = (file name, length of that input)', ok and name_ok and len_ok,
-               f'records {_strip(el)[:120]} per input in loop order' if ok and name_ok and len_ok else
-               f'metadata entry is not (name of the input, length of the input): `{_strip(el)[:120]}`', line=h.node.lineno)
+        if r_entry is not None:
+            ctx.ob(r_entry, mg, 'metadata entry per input = (file name, length of that input)', ok and name_ok and len_ok,
+                   f'records {_strip(el)[:120]} per input in loop order' if ok and name_ok and len_ok else
+                   f'metadata entry is not (name of the input, length of the input): `{_strip(el)[:120]}`', line=h.node.lineno)
+    return recorded
 
-    # --- relocation ------------------------------------------------------------------------------------------
+
+def merge_relocation(ctx, prog, m, recorded, r_order, r_entry):
+    mg, prov = _merge_prov(ctx, prog, m)
+    out_param = mg.params[0]
+
     def is_move(n):
         return isinstance(n, ast.Call) and (call_name(n) in ('os.rename', 'os.replace', 'shutil.move', 'os.renames')
                                             or (isinstance(n.func, ast.Attribute) and n.func.attr in ('rename', 'replace')
@@ -441,8 +594,8 @@ def rule_merge(ctx, prog, m, mixed_refused=False):
     try:
         moves = prov.sym(mg, is_move).hits
     except SymUndecided as ex:
-        ctx.undecided('C09-R1', mg, 'relocation', str(ex))
-    ctx.floor('C09-R1', len(moves), 1, 'relocation calls (rename / replace / move) in merge')
+        ctx.undecided(r_order, mg, 'relocation', str(ex))
+    ctx.floor(r_order, len(moves), 1, 'relocation calls (rename / replace / move) in merge')
     seen = set()
     for h in moves:
         c = h.node
@@ -451,18 +604,18 @@ def rule_merge(ctx, prog, m, mixed_refused=False):
         seen.add(id(c))
         loop = _enclosing_loop(c)
         if loop is None:
-            ctx.undecided('C09-R1', mg, norm(c)[:80], 'relocation outside a loop over the inputs')
+            ctx.undecided(r_order, mg, norm(c)[:80], 'relocation outside a loop over the inputs')
         it = h.ev(loop.iter)
         while isinstance(it, ast.Call) and call_name(it) in ('sorted', 'reversed', 'set', 'frozenset', 'list', 'tuple') and it.args:
             it = it.args[0]      # the order in which the files are moved does not matter
         s = prov.seq(it)
         if isinstance(s, Broken):
             if not s.definite:
-                ctx.undecided('C09-R1', mg, _strip(it)[:80], s.why)
-            ctx.ob('C09-R1', mg, 'relocation visits every input', False,
+                ctx.undecided(r_order, mg, _strip(it)[:80], s.why)
+            ctx.ob(r_order, mg, 'relocation visits every input', False,
                    f'the relocation loop visits the inputs in a different subset: {s.why}', line=loop.lineno)
             continue
-        ctx.ob('C09-R1', mg, 'relocation visits every input', True, f'loop over {s!r}'[:160], line=loop.lineno)
+        ctx.ob(r_order, mg, 'relocation visits every input', True, f'loop over {s!r}'[:160], line=loop.lineno)
         b = bind_target(loop.target, s.elem, f'@{loop.lineno}')
         if call_name(c) in ('os.rename', 'os.replace', 'shutil.move', 'os.renames'):
             a_src, a_dst = arg_or_kw(c, 0, 'src'), arg_or_kw(c, 1, 'dst')
@@ -470,134 +623,215 @@ def rule_merge(ctx, prog, m, mixed_refused=False):
             a_src, a_dst = c.func.value, c.args[0]
         src = canon(prov.simp(subst(h.ev(a_src), b)))
         dst = prov.simp(subst(h.ev(a_dst), b))
-        want = f'{out_param} / {canon(recorded)}' if recorded is not None else None
-        ok = src == ELEM and want is not None and canon(dst) == want
-        ctx.ob('C09-R4', mg, 'input moved to <output>/<the name recorded for it>', ok,
+        if recorded is None:
+            continue             # the metadata entry is not an image of the inputs: reported there
+        want = f'{out_param} / {canon(recorded)}'
+        ok = src == ELEM and canon(dst) == want
+        ctx.ob(r_entry, mg, 'input moved to <output>/<the name recorded for it>', ok,
                f'moves {src} to {canon(dst)}' if ok else
-               f'the relocation moves `{src}` to `{canon(dst)}`; the metadata records `{canon(recorded) if recorded is not None else "?"}` '
+               f'the relocation moves `{src}` to `{canon(dst)}`; the metadata records `{canon(recorded)}` '
                f'inside `{out_param}`: the relocation target differs from the name recorded in the metadata', line=c.lineno)
 
-    # --- the merged-index builder: which list, under which condition ----------------------------------------
-    builder = m.func('TrajectoryStore._create_merged_store_index')
 
-    def is_build(n):
-        return isinstance(n, ast.Call) and call_name(n).split('.')[-1] == builder.name
+def _is_store_open(n) -> bool:
+    """`TrajectoryStore.open(base_file=P)` / `TrajectoryStore(P, …)` / `cls.open(P)` - not the built-in open()"""
+    if not isinstance(n, ast.Call):
+        return False
+    cn = call_name(n)
+    last = cn.split('.')[-1]
+    if last == 'TrajectoryStore':
+        return True
+    return last in ('open', 'append') and '.' in cn and cn.split('.')[-2] in ('TrajectoryStore', 'cls') \
+        and arg_or_kw(n, 0, 'base_file') is not None
 
+
+def _bind_call(callee, c: ast.Call) -> dict[str, ast.expr] | None:
+    """parameter -> argument expression (defaults included) of a plain call of a static / class method or function"""
+    a = callee.node.args
+    if a.vararg or a.kwarg or any(isinstance(x, ast.Starred) for x in c.args) or any(k.arg is None for k in c.keywords):
+        return None
+    pos = [x.arg for x in a.posonlyargs + a.args]
+    decs = [d.split('.')[-1] for d in callee.decorators()]
+    if pos and pos[0] in ('self', 'cls') and 'staticmethod' not in decs:
+        pos = pos[1:]            # (a method that was moved to module level keeps its class in the program model)
+    names = pos + [x.arg for x in a.kwonlyargs]
+    if len(c.args) > len(pos):
+        return None
+    out = dict(zip(pos, c.args))
+    for k in c.keywords:
+        if k.arg in out or k.arg not in names:
+            return None
+        out[k.arg] = k.value
+    for p in names:
+        if p not in out:
+            d = _param_default_of(callee, p)
+            if d is None:
+                return None
+            out[p] = d
+    return out
+
+
+def _param_default_of(fn, name: str):
+    a = fn.node.args
+    pos = a.posonlyargs + a.args
+    for p, d in zip(reversed(pos), reversed(a.defaults)):
+        if p.arg == name:
+            return d
+    for p, d in zip(a.kwonlyargs, a.kw_defaults):
+        if p.arg == name and d is not None:
+            return d
+    return None
+
+
+def builder_walk(ctx, prog, m, rule):
+    """Which stores does the merged-index builder walk, in which order?  For every place where the builder opens a
+    store: the loop (or comprehension) it sits in is followed back to a parameter of the builder.
+    -> [(open call, Seq over `parameter p` | Broken, path of the opened store over ELEM and the builder's parameters,
+         line)]"""
+    b = m.func('TrajectoryStore._create_merged_store_index')
+    params = list(b.params)
+
+    def root(e):
+        return f'parameter {e.id}' if isinstance(e, ast.Name) and e.id in params else None
+    prov = Prov(ctx, prog, m, b, root)
     try:
-        builds = prov.sym(mg, is_build).hits
+        hits = prov.sym(b, _is_store_open).hits
     except SymUndecided as ex:
-        ctx.undecided('C09-R6', mg, 'index builder', str(ex))
-    ctx.floor('C09-R6', len({id(h.node) for h in builds}), 1, 'merged-index creation sites in merge')
-    done = set()
+        ctx.undecided(rule, b, 'stores opened by the index builder', str(ex))
+    out, seen = [], set()
+    for h in hits:
+        c = h.node
+        if id(c) in seen:
+            continue
+        seen.add(id(c))
+        comp = next((x for x in ancestors(c) if isinstance(x, (ast.ListComp, ast.GeneratorExp, ast.SetComp, ast.DictComp))
+                     or isinstance(x, ast.stmt)), None)
+        path = arg_or_kw(c, 0, 'base_file')
+        if isinstance(comp, (ast.ListComp, ast.GeneratorExp, ast.SetComp, ast.DictComp)):
+            if len(comp.generators) != 1:
+                ctx.undecided(rule, b, norm(comp)[:80], 'stores opened in a nested comprehension')
+            g = comp.generators[0]
+            s = prov.seq(h.ev(g.iter))
+            if isinstance(comp, (ast.SetComp, ast.DictComp)) and not isinstance(s, Broken):
+                s = Broken('the stores are collected in a set / dict', isinstance(comp, ast.SetComp))
+            if g.ifs and not isinstance(s, Broken):
+                s = Broken('the comprehension filters inputs out', True)
+            bind = {} if isinstance(s, Broken) else bind_target(g.target, s.elem)
+            opened = prov.simp(subst(h.ev(path), bind)) if path is not None else None
+            out.append((c, s, opened, c.lineno))
+            continue
+        loop = _enclosing_loop(c)
+        if loop is None:
+            ctx.undecided(rule, b, norm(c)[:80], 'the index builder opens a store outside any loop over the inputs')
+        s = prov.seq(h.ev(loop.iter))
+        bind = {} if isinstance(s, Broken) else bind_target(loop.target, s.elem, f'@{loop.lineno}')
+        opened = prov.simp(subst(h.ev(path), bind)) if path is not None else None
+        out.append((c, s, opened, loop.lineno))
+    return b, out
+
+
+def _builder_calls(ctx, prog, m, rule):
+    """[(call of the index builder in merge, symbolic hit)]"""
+    mg, prov = _merge_prov(ctx, prog, m)
+    builder = m.func('TrajectoryStore._create_merged_store_index')
+    try:
+        builds = prov.sym(mg, lambda n: isinstance(n, ast.Call) and call_name(n).split('.')[-1] == builder.name).hits
+    except SymUndecided as ex:
+        ctx.undecided(rule, mg, 'index builder', str(ex))
+    out, done = [], set()
+    for h in builds:
+        if id(h.node) not in done:
+            done.add(id(h.node))
+            out.append(h)
+    return mg, prov, builder, out
+
+
+def rule_index_walk(ctx, prog, m, rule):
+    """The sequence of stores the merged-index builder walks (and accumulates its offsets over) is an order-preserving
+    image of the checked input list of merge: builder-side provenance (loop -> parameter) composed with the call in
+    merge (argument -> checked input list).  A directory listing, sorted(), a set are definite violations: the offsets
+    of the merged index would follow that order while metadata.json, __len__ and __getitem__ keep the caller's."""
+    b, walk = builder_walk(ctx, prog, m, rule)
+    ctx.floor(rule, len(walk), 1, 'places where the merged-index builder opens a constituent store')
+    mg, mprov, builder, calls = _builder_calls(ctx, prog, m, rule)
+    for c, s, opened, line in walk:
+        if isinstance(s, Broken):
+            if not s.definite:
+                ctx.undecided(rule, b, norm(c)[:80], f'order in which the index builder visits the stores: {s.why}')
+            ctx.ob(rule, b, 'merged index walks the inputs in the order given', False,
+                   f'{s.why}: the merged index is built by walking the constituent stores in an order that is not the order '
+                   f'in which the inputs were given to merge. The per-store offsets of the merged index follow that walk, '
+                   f'while metadata.json, __len__ and __getitem__ keep the caller\'s order, so look-ups by flight identifier '
+                   f'return trajectories of other parts', line=line)
+            continue
+        pname = s.src.split(' ', 1)[1]
+        if opened is None or not any(isinstance(x, ast.Name) and x.id == ELEM for x in ast.walk(opened)):
+            ctx.ob(rule, b, 'merged index walks the inputs in the order given', False,
+                   f'the store opened at each step (`{_strip(opened) if opened is not None else "?"}`) is not made from the '
+                   f'input of that step', line=line)
+            continue
+        for h in calls:
+            bound = _bind_call(builder, h.node)
+            if bound is None or pname not in bound:
+                ctx.undecided(rule, mg, norm(h.node)[:80], f'cannot tell the argument for `{pname}` of the index builder')
+            ms = mprov.seq(h.ev(bound[pname]))
+            if isinstance(ms, Broken):
+                if not ms.definite:
+                    ctx.undecided(rule, mg, _strip(bound[pname])[:80], ms.why)
+                ctx.ob(rule, mg, 'merged index walks the inputs in the order given', False,
+                       f'{ms.why}: the list handed to the merged-index builder is not the inputs in the order in which they '
+                       f'were given, so the per-store offsets of the merged index do not match the file order of the merged '
+                       f'store', line=h.node.lineno)
+                continue
+            full = subst(subst(opened, {ELEM: ast.Name(id='__step__', ctx=ast.Load())}),
+                         {k: h.ev(v) for k, v in bound.items() if k != pname})
+            full = mprov.simp(subst(full, {'__step__': ms.elem}))
+            ok = any(isinstance(x, ast.Name) and x.id == ELEM for x in ast.walk(full))
+            ctx.ob(rule, b, 'merged index walks the inputs in the order given', ok,
+                   f'step k opens {canon(full)[:100]} with {ELEM} = input k of {ms.src}' if ok else
+                   f'the store opened at step k (`{canon(full)[:100]}`) is not made from input k', line=line)
+    return walk
+
+
+def merge_builder(ctx, prog, m, mixed_refused, r_order, r_cond):
+    """which list the merged-index builder receives [r_order], and under which condition it runs [r_cond]"""
+    mg, prov, builder, builds = _builder_calls(ctx, prog, m, r_cond)
+    ctx.floor(r_cond, len(builds), 1, 'merged-index creation sites in merge')
+    _, walk = builder_walk(ctx, prog, m, r_order)
+    srcs = sorted({s.src.split(' ', 1)[1] for _, s, _, _ in walk if isinstance(s, Seq)})
     for h in builds:
         c = h.node
-        if id(c) in done:
-            continue
-        done.add(id(c))
-        a = arg_or_kw(c, 1, builder.params[1])
-        if a is None:
-            ctx.undecided('C09-R1', mg, norm(c)[:80], 'cannot tell the list argument of the index builder')
-        _decide(ctx, 'C09-R1', mg, 'index builder receives the inputs in the order given', prov.seq(h.ev(a)),
-                want_elem=ELEM, line=c.lineno)
-        # R6
-        problems, unknown, conds = [], [], []
-        for t, pol, _ in guards_of(stmt_of(c)):
-            for atom, p in conjuncts(h.ev(t), pol):
-                conds.append(('' if p else 'not ') + _strip(atom)[:60])
-                v = _every_input_identified(prov, atom, p)
-                if v is True:
-                    continue
-                nt = _none_test(canon_fact(atom, p)[2])
-                if nt is not None and _is_group_element(prov, nt[0]) and nt[1] != canon_fact(atom, p)[1] and mixed_refused:
-                    continue        # one input is identified, and mixed inputs were refused before: all of them are
-                n_ok = _holds_for_every_count(prov, atom, p)
-                if n_ok is True:
-                    continue
-                if n_ok is False:
-                    problems.append(f'`{"" if p else "not "}{_strip(atom)}` does not hold for every number of inputs')
-                elif v is False:
-                    problems.append(f'`{"" if p else "not "}{_strip(atom)}` is not "every input is identified"')
-                else:
-                    unknown.append(_strip(atom))
-        if not problems and unknown:
-            ctx.undecided('C09-R6', mg, unknown[0][:80], 'guard of the index builder not recognised')
-        if not problems and not conds:
-            ctx.undecided('C09-R6', mg, norm(c)[:60], 'the index builder runs unconditionally')
-        ok = not problems
-        ctx.ob('C09-R6', mg, 'merged index built exactly when every input is identified', ok,
-               f'built under {conds}: for every identified merge (the reader looks for the merged index only)' if ok else
-               (f'{problems[0]}: the merged index is not built for every merge of identified stores: the reader of a merged '
-                'store only consults the merged index file, so such a store opens as not indexable and look-ups by flight '
-                'identifier fail although every input had identifiers'), line=c.lineno)
+        bound = _bind_call(builder, c)
+        for pname in srcs:
+            if bound is None or pname not in bound:
+                ctx.undecided(r_order, mg, norm(c)[:80], 'cannot tell the list argument of the index builder')
+            _decide(ctx, r_order, mg, 'index builder receives the inputs in the order given', prov.seq(h.ev(bound[pname])),
+                    line=c.lineno)
+    # the condition under which the builder runs: by interpretation of merge over short uniform input sequences
+    verdict, text, line = refusal_tables(prog, m)['built']
+    if verdict is None:
+        ctx.undecided(r_cond, mg, 'merged index built exactly when every input is identified', f'truth table not decided - {text}')
+    ctx.ob(r_cond, mg, 'merged index built exactly when every input is identified', verdict,
+           text if verdict else f'{text}: the merged index is not built for every merge of identified stores', line=line)
 
-    # --- nothing re-orders the lists in place ------------------------------------------------------------------
+
+def merge_in_place(ctx, prog, m, rule):
+    """nothing re-orders the lists in place"""
+    mg, prov = _merge_prov(ctx, prog, m)
+    try:
+        prov.sym(mg, lambda n: _stores_entry(n) is not None)
+    except SymUndecided:
+        pass
     for x in walk_no_nested(mg.node):
         if isinstance(x, ast.Call) and isinstance(x.func, ast.Attribute) and x.func.attr in ('sort', 'reverse') \
                 and isinstance(x.func.value, ast.Name):
             nm = x.func.value.id
-            holds = nm in prov.lists or any(isinstance(s, ast.Assign) and any(_is_name(t, nm) for t in s.targets)
-                                            and prov.root(s.value) is not None for s in walk_no_nested(mg.node))
+            s = prov.accumulator(mg, nm, 0)
+            holds = nm in prov.lists or (isinstance(s, Broken) and s.definite) \
+                or any(isinstance(st, ast.Assign) and any(_is_name(t, nm) for t in st.targets)
+                       and prov.root(st.value) is not None for st in walk_no_nested(mg.node))
             if holds:
-                ctx.ob('C09-R1', mg, norm(x), False, 'list reordered in place', line=x.lineno)
-
-
-def _none_test(e: ast.expr):
-    """(X, is_none) when e is `X is None` / `X is not None` / `X == None`, else None"""
-    k, pol, ce = canon_fact(e, True)
-    if isinstance(ce, ast.Compare) and isinstance(ce.ops[0], (ast.Is, ast.Eq)) \
-            and isinstance(ce.comparators[0], ast.Constant) and ce.comparators[0].value is None:
-        return ce.left, pol
-    return None
-
-
-def _identified_aggregate(prov, e: ast.expr):
-    """('all' | 'any', polarity of "is identified") when e is all(/any(<elem None-test> for elem in <index groups of the
-    inputs>), else None"""
-    if not (isinstance(e, ast.Call) and call_name(e) in ('all', 'any') and len(e.args) == 1
-            and isinstance(e.args[0], (ast.GeneratorExp, ast.ListComp))):
-        return None
-    s = prov.seq(e.args[0])
-    if isinstance(s, Broken):
-        return None
-    nt = _none_test(s.elem)
-    if nt is None or not _about_groups(nt[0]):
-        return None
-    return call_name(e), (not nt[1])
-
-
-def _every_input_identified(prov, atom: ast.expr, pol: bool):
-    """True: the fact `atom is pol` says exactly "every input has an identifier index"; False: it is about the index
-    groups but says something else; None: not about them"""
-    k, p, ce = canon_fact(atom, pol)
-    ag = _identified_aggregate(prov, ce)
-    if ag is not None:
-        fn, identified = ag
-        # all(g is not None) true  |  any(g is None) false
-        return bool((fn == 'all' and identified and p) or (fn == 'any' and not identified and not p))
-    if _about_groups(ce):
-        return False
-    return None
-
-
-def _holds_for_every_count(prov, atom: ast.expr, pol: bool):
-    """a guard that only depends on the number of inputs: does it hold for 1, 2, 3, … inputs?"""
-    lens = []
-
-    class T(ast.NodeTransformer):
-        def visit_Call(self, n):
-            if call_name(n) == 'len' and len(n.args) == 1 and isinstance(prov.seq(n.args[0]), Seq):
-                lens.append(n)
-                return ast.Name(id='n', ctx=ast.Load())
-            return self.generic_visit(n)
-    e = T().visit(copy.deepcopy(atom))
-    if not lens:
-        if isinstance(prov.seq(atom), Seq):     # truthiness of the list itself: at least one input
-            return pol
-        return None
-    try:
-        return all(bool(eval_pred(e, {'n': n})) == pol for n in range(1, 7))
-    except (ValueError, TypeError):
-        return None
+                ctx.ob(rule, mg, norm(x), False, 'list reordered in place', line=x.lineno)
 
 
 def rule_open_merged(ctx, prog, m):
@@ -669,193 +903,66 @@ def rule_open_merged(ctx, prog, m):
     if sz is None:
         ctx.undecided('C09-R1', om, 'size_index', 'not passed by keyword')
     e = h.ev(sz)
-    while isinstance(e, ast.Call) and call_name(e) in ('list', 'tuple') and len(e.args) == 1:
-        e = e.args[0]
+    while isinstance(e, ast.Call):
+        if call_name(e) in ('list', 'tuple', 'np.asarray', 'np.array', 'numpy.asarray', 'numpy.array') and len(e.args) == 1:
+            e = e.args[0]                # conversions keep the values and their order
+        elif isinstance(e.func, ast.Attribute) and e.func.attr in ('tolist', 'copy') and not e.args:
+            e = e.func.value
+        else:
+            break
     running = isinstance(e, ast.Call) and call_name(e).split('.')[-1] in ('accumulate', 'cumsum') and len(e.args) == 1 \
         and not any(k.arg in ('func', 'initial') for k in e.keywords)
-    if not running:
+    if running:
+        s = prov.seq(e.args[0])
+        per = s.elem if isinstance(s, Seq) else None
+    else:
+        # a hand-written running sum: `total = 0; for d in dims: total += len(d); table.append(total)`
         s = prov.seq(e)
+        per = None
+        if isinstance(s, Seq) and isinstance(s.elem, ast.Call) and call_name(s.elem) == RUNSUM:
+            per, running = s.elem.args[0], True
+    if not running:
         if isinstance(s, Broken) and not s.definite:
             ctx.undecided('C09-R1', om, _strip(e)[:80], 'size table is not a recognised running sum')
+        if isinstance(s, Seq) and not (isinstance(s.elem, ast.Call) and call_name(s.elem) == 'len'):
+            ctx.undecided('C09-R1', om, _strip(s.elem)[:80], 'size table is not a recognised running sum')
         ctx.ob('C09-R1', om, 'size table = running sum of per-file lengths', False,
-               'size table is not the cumulative sum of the file lengths', line=sz.lineno)
+               'size table is not the cumulative sum of the file lengths'
+               + (f' ({s.why})' if isinstance(s, Broken) else ': it holds the length of each file, not the running total'),
+               line=sz.lineno)
         return
-    s = prov.seq(e.args[0])
     if _decide(ctx, 'C09-R1', om, 'size_index follows metadata order', s, line=sz.lineno):
         dim = images.get('traj_dim')
-        ok = isinstance(dim, Seq) and isinstance(s.elem, ast.Call) and call_name(s.elem) == 'len' \
-            and len(s.elem.args) == 1 and norm(s.elem.args[0]) == norm(dim.elem)
+        ok = isinstance(dim, Seq) and isinstance(per, ast.Call) and call_name(per) == 'len' \
+            and len(per.args) == 1 and norm(per.args[0]) == norm(dim.elem)
         ctx.ob('C09-R1', om, 'size table = running sum of per-file lengths', ok,
-               f'accumulate of {_strip(s.elem)[:80]} per file' if ok else
-               f'the size table sums `{_strip(s.elem)[:80]}`, not the length of the trajectory dimension stored for the '
+               f'running sum of {_strip(per)[:80]} per file' if ok else
+               f'the size table sums `{_strip(per)[:80]}`, not the length of the trajectory dimension stored for the '
                f'same file: size table is not the cumulative sum of the file lengths', line=sz.lineno)
 
 
 def rule_refusals(ctx, prog, m):
-    """R2: differing field sets and mixed identifier use are refused"""
-    mg, prov = _merge_prov(ctx, prog, m)
-    try:
-        sym = prov.sym(mg)
-    except SymUndecided as ex:
-        ctx.undecided('C09-R2', mg, 'refusals', str(ex))
-
-    def facts_of(r):
-        """facts of a raise path, with the loop targets of the enclosing loop replaced by the element they stand for"""
-        st, exc, stmt, rs = r
-        loop = _enclosing_loop(stmt)
-        b = {}
-        if loop is not None:
-            s = prov.seq(rs.ev(loop.iter, st.fork()))
-            if isinstance(s, Seq):
-                b = bind_target(loop.target, s.elem, f'@{loop.lineno}')
-        return [(prov.simp(subst(e, b)), p) for k, p, e in st.facts]
-
-    raises = list(sym.raises)
-
-    # ---- field sets ------------------------------------------------------------------------------------------
-    def mentions_nc(e):
-        return any(isinstance(x, ast.Attribute) and x.attr in ('_nc', 'fieldsets') for x in ast.walk(e))
-
-    verdict, where, ref_name, self_cmp = None, None, None, None
-    for r in raises:
-        for e, p in facts_of(r):
-            if not mentions_nc(e):
-                continue
-            k, pol, ce = canon_fact(e, p)
-            where = where or r[2]
-            if isinstance(ce, ast.Compare) and isinstance(ce.ops[0], ast.Eq) and not pol:
-                sides = [ce.left, ce.comparators[0]]
-                refs = [x for x in sides if isinstance(x, ast.Name) and '@' in x.id]
-                curs = [x for x in sides if mentions_nc(x)]
-                if len(refs) == 1 and len(curs) == 1:
-                    verdict, ref_name, where = True, refs[0], r[2]
-                elif norm(sides[0]) == norm(sides[1]):
-                    self_cmp = r[2]   # (the first-input path compares the just-bound reference with itself)
-                continue
-            sym_diff = (isinstance(ce, ast.BinOp) and isinstance(ce.op, ast.BitXor)) or \
-                (isinstance(ce, ast.Call) and isinstance(ce.func, ast.Attribute) and ce.func.attr == 'symmetric_difference')
-            if sym_diff and pol:
-                refs = [x for x in ast.walk(ce) if isinstance(x, ast.Name) and '@' in x.id]
-                if refs:
-                    verdict, ref_name, where = True, refs[0], r[2]
-                continue
-            one_way = (isinstance(ce, ast.BinOp) and isinstance(ce.op, ast.Sub)) or \
-                (isinstance(ce, ast.Compare) and isinstance(ce.ops[0], (ast.Lt, ast.LtE, ast.Gt, ast.GtE))) or \
-                (isinstance(ce, ast.Call) and isinstance(ce.func, ast.Attribute)
-                 and ce.func.attr in ('issubset', 'issuperset', 'difference', 'isdisjoint'))
-            tagged = any(isinstance(x, ast.Name) and '@' in x.id for x in ast.walk(ce))
-            if one_way and (verdict is None or (isinstance(verdict, tuple) and tagged)):
-                verdict = (False, f'the refusal tests `{"" if pol else "not "}{_strip(ce)[:90]}`: a one-directional comparison, so an '
-                                  f'input with additional (or, the other way round, missing) field sets is accepted')
-                where = r[2]
-    if verdict is None and where is None:
-        ctx.ob('C09-R2', mg, 'refusal: field sets differ', False, 'merge no longer refuses when field sets differ',
-               line=mg.node.lineno, nontrivial=False)
-    elif verdict is None and self_cmp is not None:
-        ctx.ob('C09-R2', mg, 'reference field sets taken from the first input only', False,
-               'the reference field-set name set is rebound on later inputs: on every path the refusal compares the names '
-               'of an input with the reference that was just bound from that same input, so it never fires',
-               line=self_cmp.lineno)
-    elif verdict is None:
-        ctx.undecided('C09-R2', mg, 'refusal: field sets differ', 'a raise depends on the field sets in a form that is not recognised')
-    elif verdict is True:
-        ctx.ob('C09-R2', mg, 'refusal: field sets differ', True, f'raise at line {where.lineno} whenever the names differ '
-               'from the reference', line=where.lineno, nontrivial=False)
-        # the reference is taken from the first input only
-        base = _base_id(ref_name.id)
-        loop = _enclosing_loop(where)
-        binds = [x for x in walk_no_nested(loop if loop is not None else mg.node)
-                 if isinstance(x, (ast.Assign, ast.AnnAssign)) and getattr(x, 'value', None) is not None
-                 and any(_is_name(t, base) for t in (x.targets if isinstance(x, ast.Assign) else [x.target]))]
-        ok, why = bool(binds), 'the reference field-set names are never bound inside the loop'
-        for x in binds:
-            try:
-                hs = prov.sym(mg, lambda n, x=x: n is x).hits
-            except SymUndecided as ex:
-                ctx.undecided('C09-R2', mg, norm(x)[:60], str(ex))
-            for hh in hs:
-                unset = hh.state.fact(f'{ref_name.id} is None') is True or hh.state.fact(ref_name.id) is False
-                if not unset:
-                    ok, why = False, f'`{norm(x)[:70]}` rebinds the reference on later inputs'
-                elif not mentions_nc(hh.ev(x.value)):
-                    ok, why = False, f'`{norm(x)[:70]}` does not bind the field-set names of the input'
-        ctx.ob('C09-R2', mg, 'reference field sets taken from the first input only', ok,
-               f'`{base}` is bound only while it is still unset' if ok else
-               f'the reference field-set name set is rebound on later inputs: {why}',
-               line=(binds[0].lineno if binds else mg.node.lineno))
-    else:
-        ctx.ob('C09-R2', mg, 'refusal: field sets differ', False,
-               'merge no longer refuses when field sets differ: ' + verdict[1], line=where.lineno)
-
-    # ---- identified / unidentified ---------------------------------------------------------------------------
-    covered: set[tuple[bool, bool]] = set()      # (reference input unidentified, this input unidentified)
-    aggregate = False
-    about = None
-    unknown = None
-    MIXED = {'ALL': False, 'ANY': True}      # not every input identified, but some
-
-    def value_in_mixed(ag):
-        """truth value, for a mixed list, of all(/any( over "identified" / "unidentified" """
-        fn, identified = ag
-        if fn == 'all':
-            return MIXED['ALL'] if identified else not MIXED['ANY']
-        return MIXED['ANY'] if identified else not MIXED['ALL']
-
-    for r in raises:
-        agg_facts = []      # truth of each aggregate fact of the path when the inputs are mixed
-        per = []
-        for e, p in facts_of(r):
-            k, pol, ce = canon_fact(e, p)
-            if isinstance(ce, ast.Compare) and isinstance(ce.ops[0], ast.Eq):
-                a, b = _identified_aggregate(prov, ce.left), _identified_aggregate(prov, ce.comparators[0])
-                if a and b:
-                    agg_facts.append((value_in_mixed(a) == value_in_mixed(b)) == pol)
-                    about = about or r[2]
-                    continue
-            ag = _identified_aggregate(prov, ce)
-            if ag is not None:
-                agg_facts.append(value_in_mixed(ag) == pol)
-                about = about or r[2]
-                continue
-            nt = _none_test(ce)
-            if nt is not None and (_about_groups(nt[0]) or _is_group_element(prov, nt[0])):
-                about = about or r[2]
-                cur = any(isinstance(x, ast.Name) and x.id == ELEM for x in ast.walk(nt[0]))
-                per.append((cur, nt[1] == pol))      # (is about the current input, says "unidentified")
-            elif _about_groups(ce):
-                unknown = _strip(ce)
-        # the aggregate tests of this raise path all hold for a mixed list: the path refuses it
-        if agg_facts and all(agg_facts):
-            aggregate, about = True, r[2]
-        if any(c for c, _ in per) and any(not c for c, _ in per):
-            for ref_un in (True, False):
-                for cur_un in (True, False):
-                    if all((cur_un if c else ref_un) == un for c, un in per):
-                        covered.add((ref_un, cur_un))
-    if aggregate or {(True, False), (False, True)} <= covered:
-        ctx.ob('C09-R2', mg, 'refusal: mixed identifier use', True, f'raise at line {about.lineno}', line=about.lineno,
-               nontrivial=False)
-        return True
-    elif covered:
-        missing = {(True, False): 'an unidentified store followed by an identified one',
-                   (False, True): 'an identified store followed by an unidentified one'}
-        miss = [v for k, v in missing.items() if k not in covered]
-        ctx.ob('C09-R2', mg, 'refusal: mixed identifier use', False,
-               f'merge no longer refuses when mixed identifier use: the per-input test does not cover {miss[0]}',
-               line=about.lineno)
-    elif about is None and unknown is None:
-        ctx.ob('C09-R2', mg, 'refusal: mixed identifier use', False, 'merge no longer refuses when mixed identifier use',
-               line=mg.node.lineno, nontrivial=False)
-    else:
-        ctx.undecided('C09-R2', mg, 'refusal: mixed identifier use', f'identifier test not recognised ({unknown or "?"})')
+    """R2: differing field sets and mixed identifier use are refused - decided by interpreting merge over every short
+    sequence of inputs (`refusal_tables`), not by the spelling of the tests"""
+    mg = m.func('TrajectoryStore.merge')
+    verdict, text, line = refusal_tables(prog, m)['fieldsets']
+    if verdict is None:
+        ctx.undecided('C09-R2', mg, 'refusal: field sets differ', f'truth table not decided - {text}')
+    ctx.ob('C09-R2', mg, 'refusal: field sets differ', verdict,
+           text, line=line)
+    return rule_mixed_refused(ctx, prog, m, 'C09-R2')
 
 
-def _is_group_element(prov, e: ast.expr) -> bool:
-    """e is one element (constant subscript) of a list whose elements are the index groups of the inputs"""
-    if isinstance(e, ast.Subscript) and isinstance(e.slice, ast.Constant):
-        s = prov.seq(e.value)
-        return isinstance(s, Seq) and _about_groups(s.elem)
-    return False
+def rule_mixed_refused(ctx, prog, m, rule: str) -> bool:
+    """every mixed list of identified / unidentified inputs reaches a raise of merge: decided by interpreting merge for
+    every sequence of up to three inputs (see `TruthTable`), whatever the spelling of the test (aggregate all/any,
+    per-input comparison with a reference, counters, sets, fail-fast inside the loop, helper)"""
+    mg = m.func('TrajectoryStore.merge')
+    verdict, text, line = refusal_tables(prog, m)['mixed']
+    if verdict is None:
+        ctx.undecided(rule, mg, 'refusal: mixed identifier use', f'truth table not decided - {text}')
+    ctx.ob(rule, mg, 'refusal: mixed identifier use', verdict, text, line=line, nontrivial=True)
+    return bool(verdict)
 
 
 def rule_locate_arith(ctx, prog, m):
@@ -952,7 +1059,7 @@ def rule_locate_arith(ctx, prog, m):
             if _same_nf(p.rec, prev):
                 verdict = (True, 'index minus the cumulative count before the located file') if positive else \
                     (False, 'subtracts size_index[file - 1] also for the first file: size_index[-1] is the total')
-            elif _is_name(p.rec, idx):
+            elif _same_nf(p.rec, ast.Name(id=idx, ctx=ast.Load())):
                 verdict = (True, 'first file: the index itself') if zero else \
                     (False, 'the requested index is used unchanged inside a constituent file of a merged store')
             elif isinstance(p.rec, ast.BinOp) and not any(isinstance(x, ast.Attribute) and x.attr == 'size_index'
@@ -969,3 +1076,1853 @@ def rule_locate_arith(ctx, prog, m):
 def _same_nf(a, b) -> bool:
     na, nb = _nf(a), _nf(b)
     return na is not None and nb is not None and (na - nb).is_zero()
+
+
+# ------------------------------------------------------------------------------------------------ truth table
+#
+# `merge` is *interpreted* (an abstract interpreter over the AST; nothing of the repository is imported or run) for the
+# call `merge(<output>, [p0, …, pn-1])` with every other parameter at its default, once per assignment of
+# identified / unidentified to the n inputs.  The only things with a known value are what the code itself computes
+# from constants and from "is input k identified" (`<store opened on pk>.index_group` is None or an object,
+# `.indexable` is a bool); everything else (paths, field sets, file-system calls) is an opaque object.  A branch on
+# an opaque test forks the path, and a raise that is control-dependent on such a branch is somebody else's refusal
+# (missing file, differing field sets) and its path is dropped.  A branch on a value that was computed from
+# identifier information but could not be evaluated makes the whole table UNDECIDED, never a verdict.
+
+ID_ATTRS = ('index_group', 'indexable')          # identifier information of an opened store
+STORE_ATTRS = ID_ATTRS + ('_nc',)                 # … and its field sets: what the tables vary
+
+
+class TTUndecided(Exception):
+    pass
+
+
+class _Raised(Exception):
+    def __init__(self, known, node):
+        self.known, self.node = known, node
+
+
+class _CannotEnter(Exception):
+    """a helper whose call cannot be bound to its parameters"""
+
+
+class AV:
+    """abstract value: k = 'c' constant | 'l' list | 't' tuple | 's' set | 'd' dict | 'a' one-dimensional array |
+    'r' record (NamedTuple / dataclass instance: field name -> value, in declaration order) | 'o' opaque object (not None) | 'f' function | 'u' unknown;  dep = computed from what was read from an input store;
+    elem = the input it was made from"""
+    __slots__ = ('k', 'v', 'dep', 'elem')
+
+    def __init__(self, k, v=None, dep=False, elem=None):
+        self.k, self.v, self.dep, self.elem = k, v, dep, elem
+
+    def __repr__(self):
+        return f'<{self.k} {self.v!r}{" dep" if self.dep else ""}{"" if self.elem is None else " #%d" % self.elem}>'
+
+
+def _deep(v: AV, what: str = 'dep', seen=None):
+    """dep: is v (or anything in it) computed from identifier information; elem: the set of inputs it was made from"""
+    seen = set() if seen is None else seen
+    if id(v) in seen:
+        return False if what == 'dep' else set()
+    seen.add(id(v))
+    kids = []
+    if v.k in ('l', 't', 'a'):
+        kids = list(v.v)
+    elif v.k in ('d', 'r'):
+        kids = list(v.v.values())
+    if what == 'dep':
+        return v.dep or any(_deep(x, what, seen) for x in kids)
+    out = set() if v.elem is None else {v.elem}
+    for x in kids:
+        out |= _deep(x, what, seen)
+    return out
+
+
+def _truth(v: AV):
+    if v.k == 'c':
+        return bool(v.v)
+    if v.k in ('l', 't', 's', 'd'):
+        return len(v.v) > 0
+    if v.k in ('f', 'r'):
+        return True
+    return None
+
+
+def _seq(v: AV):
+    """the elements of a concrete iterable, or None"""
+    if v.k in ('l', 't', 'a'):
+        return list(v.v)
+    if v.k == 's':
+        try:
+            return [AV('c', x, v.dep) for x in sorted(v.v, key=lambda x: (str(type(x)), x))]
+        except TypeError:
+            return [AV('c', x, v.dep) for x in v.v]
+    if v.k == 'd':
+        return [AV('c', x, v.dep) for x in v.v]
+    if v.k == 'r':
+        return list(v.v.values())
+    return None
+
+
+def _eq(a: AV, b: AV):
+    """a == b: True / False / None"""
+    if a.k == 'u' or b.k == 'u':
+        return None
+    if a.k == 'c' and b.k == 'c':
+        return a.v == b.v
+    if a.k == 'a' or b.k == 'a':
+        return None          # element-wise in numpy
+    if a.k == 'r':
+        a = AV('t', tuple(a.v.values()))
+    if b.k == 'r':
+        b = AV('t', tuple(b.v.values()))
+    if a.k in ('l', 't') and a.k == b.k:
+        if len(a.v) != len(b.v):
+            return False
+        rs = [_eq(x, y) for x, y in zip(a.v, b.v)]
+        return False if any(r is False for r in rs) else (None if any(r is None for r in rs) else True)
+    if a.k == 's' and b.k == 's':
+        return a.v == b.v
+    if a.k == 'o' or b.k == 'o':
+        other = b if a.k == 'o' else a
+        return False if other.k == 'c' and other.v is None else None     # an opaque object is not None; else unknown
+    if a.k == 'd' and b.k == 'd':
+        return None
+    if a.k == b.k == 'f':
+        return a.v == b.v
+    return False            # values of different kinds
+
+
+_NO = object()
+
+
+def _is_model(v: 'AV') -> bool:
+    """AV('o', ('model', {attribute: value}, {names of the attributes the table varies}))"""
+    return v.k == 'o' and isinstance(v.v, tuple) and len(v.v) == 3 and v.v[0] == 'model'
+
+
+def _concrete(v: AV):
+    """the Python value of a fully concrete abstract value (numbers, strings, None, nested tuples / lists), else _NO"""
+    if v.k == 'c':
+        return v.v
+    if v.k in ('t', 'l', 'r', 'a'):
+        out = [_concrete(x) for x in (v.v.values() if v.k == 'r' else v.v)]
+        return _NO if any(x is _NO for x in out) else tuple(out)
+    return _NO
+
+
+class _St:
+    """one path: environment, values of the repository calls already made for the current statement, the number of
+    enclosing branches that were taken on an opaque test, whether identifier information decided anything"""
+
+    def __init__(self, env=None, cache=None, under=0, flags=None, outer=None):
+        self.env, self.cache, self.under = env if env is not None else {}, cache or {}, under
+        self.flags = flags if flags is not None else {'used': False, 'built': 0, 'asserts': 0}    # one record per path, shared by the
+        self.outer = outer            # states of its callees; `outer` = the caller's path while a helper is interpreted
+        #                               (a fork copies all of it consistently)
+
+    @property
+    def used(self):
+        return self.flags['used']
+
+    @used.setter
+    def used(self, v):
+        self.flags['used'] = bool(v) or self.flags['used']
+
+    def fork(self):
+        return copy.deepcopy(self)
+
+
+class TruthTable:
+    def __init__(self, prog, fi, identified, input_list_call, builder_name=None, cap=400, fieldsets=None):
+        self.prog, self.fi, self.identified, self.cap = prog, fi, tuple(identified), cap
+        self.fieldsets = tuple(fieldsets) if fieldsets is not None else tuple(frozenset({'base'}) for _ in self.identified)
+        self.input_list_call = input_list_call       # name of the helper whose result is the input list
+        self.builder_name = builder_name             # name of the merged-index builder (calls are counted per path)
+        self.funcs: list = []                        # (FunctionDef | Lambda node, FunctionInfo | None)
+        self.sizes = None                            # number of trajectories per input (bounded interpretation of the builder)
+        self.index_tables = None                     # per input: (flight ids ascending, local positions in the same order)
+        self.enter_helpers = True                    # interpret private helpers of the module that receive varied values
+        self.foreign_elem = False                    # some branch was taken on an opaque test about an input
+        self.depth = 0
+        self.steps = 0
+
+    # ---- values -----------------------------------------------------------------------------------------
+    def inputs(self):
+        return AV('l', [AV('o', f'input {k}', False, k) for k in range(len(self.identified))])
+
+    def made_from(self, parts, what='object'):
+        """the result of a computation this interpreter does not model"""
+        dep = any(_deep(p) for p in parts)
+        elems = set()
+        for p in parts:
+            elems |= _deep(p, 'elem')
+        return AV('o', what, dep, next(iter(elems)) if len(elems) == 1 else None)
+
+    def unknown(self, parts, extra_dep=False):
+        return AV('u', None, extra_dep or any(_deep(p) for p in parts))
+
+    def fn(self, node, fi=None) -> AV:
+        for i, (n, _) in enumerate(self.funcs):
+            if n is node:
+                return AV('f', i)
+        self.funcs.append((node, fi))
+        return AV('f', len(self.funcs) - 1)
+
+    # ---- expressions --------------------------------------------------------------------------------------
+    def ev(self, e, st: _St) -> AV:
+        self.steps += 1
+        if self.steps > 200000:
+            raise TTUndecided('interpretation budget exhausted')
+        m = getattr(self, 'ev_' + type(e).__name__, None)
+        if m is None:
+            kids = [self.ev(c, st) for c in ast.iter_child_nodes(e) if isinstance(c, ast.expr)]
+            return self.unknown(kids, _mentions_id(e))
+        return m(e, st)
+
+    def ev_Constant(self, e, st):
+        return AV('c', e.value) if isinstance(e.value, (type(None), bool, int, float, str)) else AV('o', 'constant')
+
+    def ev_Name(self, e, st):
+        if e.id in st.env:
+            return st.env[e.id]
+        return AV('o', e.id)             # a global: module, class, function
+
+    def ev_NamedExpr(self, e, st):
+        v = self.ev(e.value, st)
+        st.env[e.target.id] = v
+        return v
+
+    def ev_JoinedStr(self, e, st):
+        return self.made_from([self.ev(x.value, st) for x in e.values if isinstance(x, ast.FormattedValue)], 'str')
+
+    def ev_Lambda(self, e, st):
+        return self.fn(e)
+
+    def ev_Tuple(self, e, st):
+        return self._display(e, st, 't')
+
+    def ev_List(self, e, st):
+        return self._display(e, st, 'l')
+
+    def _display(self, e, st, k):
+        out = []
+        for x in e.elts:
+            if isinstance(x, ast.Starred):
+                s = _seq(self.ev(x.value, st))
+                if s is None:
+                    return self.unknown([self.ev(y, st) for y in e.elts if not isinstance(y, ast.Starred)] + [self.ev(x.value, st)])
+                out += s
+            else:
+                out.append(self.ev(x, st))
+        return AV(k, out if k == 'l' else tuple(out))
+
+    def ev_Set(self, e, st):
+        vals = [self.ev(x, st) for x in e.elts if not isinstance(x, ast.Starred)]
+        if len(vals) == len(e.elts) and all(v.k == 'c' for v in vals):
+            return AV('s', {v.v for v in vals}, any(v.dep for v in vals))
+        return self.unknown(vals)
+
+    def ev_Dict(self, e, st):
+        out, dep = {}, False
+        for k, v in zip(e.keys, e.values):
+            if k is None:
+                return self.unknown([self.ev(v, st)])
+            kv, vv = self.ev(k, st), self.ev(v, st)
+            if kv.k != 'c':
+                return self.unknown([kv, vv])
+            out[kv.v] = vv
+            dep = dep or kv.dep
+        return AV('d', out, dep)
+
+    def ev_Attribute(self, e, st):
+        b = self.ev(e.value, st)
+        return self.attribute(b, e.attr, st)
+
+    def attribute(self, b: AV, attr: str, st: _St) -> AV:
+        if b.k == 'r':
+            return b.v[attr] if attr in b.v else self.unknown([b])
+        if _is_model(b):
+            # a model object: the attributes the table varies are known, the others are anything
+            return b.v[1][attr] if attr in b.v[1] else AV('u', None, attr in b.v[2])
+        if b.k == 'o' and b.v == 'store' and b.elem is not None:
+            # a store opened on input k: what the tables vary is known, everything else is read from the file
+            k = b.elem
+            if attr == 'indexable':
+                return AV('c', self.identified[k], True)
+            if attr == 'index_group':
+                return AV('o', 'index group', True, k) if self.identified[k] else AV('c', None, True)
+            if attr == '_nc':
+                return AV('d', {n: AV('o', 'files of a field set', True, k) for n in sorted(self.fieldsets[k])}, True)
+            return AV('o', f'.{attr}', True, k)
+        if attr in STORE_ATTRS:
+            return AV('u', None, True)
+        if b.k == 'o' and b.v == 'index group' and attr == 'variables' and self.index_tables is not None and b.elem is not None:
+            ids, idx = self.index_tables[b.elem]
+            return AV('d', {'flight_id': AV('a', [AV('c', x, True) for x in ids], True),
+                            'trajectory_index': AV('a', [AV('c', x, True) for x in idx], True)}, True)
+        if b.k == 'a':
+            if attr == 'size':
+                return AV('c', len(b.v), b.dep)
+            if attr == 'shape':
+                return AV('t', (AV('c', len(b.v), b.dep),))
+            if attr in ('data', 'T'):
+                return b
+        if b.k == 'o':
+            return AV('o', f'.{attr}', b.dep, b.elem)
+        return self.unknown([b])
+
+    def ev_Subscript(self, e, st):
+        b = self.ev(e.value, st)
+        if isinstance(e.slice, ast.Constant) and e.slice.value is Ellipsis and b.k in ('a', 'l'):
+            return AV(b.k, list(b.v), b.dep)
+        if isinstance(e.slice, ast.Slice):
+            parts = [self.ev(x, st) if x is not None else AV('c', None) for x in (e.slice.lower, e.slice.upper, e.slice.step)]
+            s = _seq(b) if b.k in ('l', 't', 'a') else None
+            if s is not None and all(p.k == 'c' and (p.v is None or isinstance(p.v, int)) for p in parts):
+                r = s[slice(*(p.v for p in parts))]
+                return AV(b.k, tuple(r) if b.k == 't' else r, b.dep or any(p.dep for p in parts))
+            return self.made_from([b] + parts, 'slice') if b.k == 'o' else self.unknown([b] + parts)
+        i = self.ev(e.slice, st)
+        if b.k == 'a' and i.k in ('a', 'l'):
+            if all(x.k == 'c' and isinstance(x.v, int) and not isinstance(x.v, bool) and -len(b.v) <= x.v < len(b.v) for x in i.v):
+                return AV('a', [b.v[x.v] for x in i.v], b.dep or _deep(i))
+            return self.unknown([b, i])
+        if b.k == 'o' and isinstance(b.v, tuple) and b.v[0] == 'anykey':
+            return b.v[1]                                      # a model mapping with the same value under every key
+        if b.k == 'o' and i.k == 'c' and isinstance(i.v, str):
+            return AV('o', ('var', i.v), b.dep, b.elem)        # a named member: `group.variables['flight_id']`
+        if b.k == 'r':
+            b = AV('t', tuple(b.v.values()), b.dep)
+        if b.k in ('l', 't', 'a') and i.k == 'c' and isinstance(i.v, int) and not isinstance(i.v, bool):
+            if -len(b.v) <= i.v < len(b.v):
+                r = b.v[i.v]
+                return r if not (b.dep or i.dep) else AV(r.k, r.v, True, r.elem)
+            raise _Raised(False, e)      # IndexError: nobody's refusal
+        if b.k == 'd' and i.k == 'c':
+            if i.v in b.v:
+                return b.v[i.v]
+            return self.unknown([b, i])
+        if b.k == 'o':
+            return self.made_from([b, i], 'item')
+        return self.unknown([b, i])
+
+    def ev_UnaryOp(self, e, st):
+        v = self.ev(e.operand, st)
+        if isinstance(e.op, ast.Not):
+            t = _truth(v)
+            return AV('c', not t, _deep(v)) if t is not None else self.unknown([v])
+        if v.k == 'c' and isinstance(v.v, (int, float)):
+            try:
+                return AV('c', {ast.USub: lambda x: -x, ast.UAdd: lambda x: +x, ast.Invert: lambda x: ~x}[type(e.op)](v.v), v.dep)
+            except Exception:
+                pass
+        return self.unknown([v])
+
+    def ev_BoolOp(self, e, st):
+        is_or = isinstance(e.op, ast.Or)
+        seen = []
+        for x in e.values:
+            v = self.ev(x, st)
+            t = _truth(v)
+            seen.append(v)
+            if t is None:
+                # the operands after an undecided one still decide the result when one of them is decisive
+                rest = [self.ev(y, st.fork()) for y in e.values[len(seen):]]
+                if any(_truth(r) is is_or for r in rest):
+                    return AV('c', is_or, any(_deep(s) for s in seen + rest))
+                return self.unknown(seen + rest)
+            if t is is_or:
+                return v if len(seen) == 1 or not any(_deep(s) for s in seen) else AV(v.k, v.v, True, v.elem)
+        v = seen[-1]
+        return v if not any(_deep(s) for s in seen[:-1]) else AV(v.k, v.v, True, v.elem)
+
+    def ev_IfExp(self, e, st):
+        c = self.ev(e.test, st)
+        t = _truth(c)
+        if t is not None:
+            v = self.ev(e.body if t else e.orelse, st)
+            return v if not _deep(c) else AV(v.k, v.v, True, v.elem)
+        a, b = self.ev(e.body, st.fork()), self.ev(e.orelse, st.fork())
+        if _eq(a, b) is True and a.k == 'c':
+            return a
+        return self.unknown([c, a, b])
+
+    def ev_BinOp(self, e, st):
+        a, b = self.ev(e.left, st), self.ev(e.right, st)
+        dep = _deep(a) or _deep(b)
+        try:
+            if a.k == 'c' and b.k == 'c' and not isinstance(a.v, str) and not isinstance(b.v, str) \
+                    and a.v is not None and b.v is not None:
+                f = {ast.Add: lambda x, y: x + y, ast.Sub: lambda x, y: x - y, ast.Mult: lambda x, y: x * y,
+                     ast.FloorDiv: lambda x, y: x // y, ast.Mod: lambda x, y: x % y, ast.BitAnd: lambda x, y: x & y,
+                     ast.BitOr: lambda x, y: x | y, ast.BitXor: lambda x, y: x ^ y}.get(type(e.op))
+                if f is not None:
+                    return AV('c', f(a.v, b.v), dep)
+            if a.k == 'a' or b.k == 'a':
+                f = {ast.Add: lambda x, y: x + y, ast.Sub: lambda x, y: x - y, ast.Mult: lambda x, y: x * y}.get(type(e.op))
+                xs = a.v if a.k == 'a' else ([a] * len(b.v) if a.k == 'c' else None)
+                ys = b.v if b.k == 'a' else ([b] * len(a.v) if b.k == 'c' else (b.v if b.k == 'l' else None))
+                if a.k == 'l':
+                    xs = a.v
+                if f is not None and xs is not None and ys is not None and len(xs) == len(ys) \
+                        and all(x.k == 'c' and isinstance(x.v, (int, float)) for x in list(xs) + list(ys)):
+                    return AV('a', [AV('c', f(x.v, y.v), x.dep or y.dep) for x, y in zip(xs, ys)], dep)
+                return self.unknown([a, b])
+            if a.k == b.k == 'l' and isinstance(e.op, ast.Add):
+                return AV('l', a.v + b.v, a.dep or b.dep)
+            if a.k == b.k == 't' and isinstance(e.op, ast.Add):
+                return AV('t', a.v + b.v, a.dep or b.dep)
+            if a.k == b.k == 's':
+                f = {ast.BitAnd: lambda x, y: x & y, ast.BitOr: lambda x, y: x | y, ast.BitXor: lambda x, y: x ^ y,
+                     ast.Sub: lambda x, y: x - y}.get(type(e.op))
+                if f is not None:
+                    return AV('s', f(a.v, b.v), dep)
+            if a.k == 'l' and b.k == 'c' and isinstance(b.v, int) and isinstance(e.op, ast.Mult):
+                return AV('l', a.v * b.v, dep)
+        except Exception:
+            return self.unknown([a, b])
+        if a.k == 'o' or b.k == 'o':
+            return self.made_from([a, b], 'result')
+        return self.unknown([a, b])
+
+    def ev_Compare(self, e, st):
+        left = self.ev(e.left, st)
+        dep = _deep(left)
+        result = True
+        for op, c in zip(e.ops, e.comparators):
+            right = self.ev(c, st)
+            dep = dep or _deep(right)
+            r = self.compare(op, left, right)
+            if r is False:
+                return AV('c', False, dep)
+            if r is None:
+                result = None
+            left = right
+        return AV('c', True, dep) if result else AV('u', None, dep)
+
+    def compare(self, op, a: AV, b: AV):
+        if isinstance(op, (ast.Is, ast.IsNot)):
+            r = None
+            for x, y in ((a, b), (b, a)):
+                if y.k == 'c' and y.v is None:
+                    r = (x.v is None) if x.k == 'c' else (None if x.k == 'u' else False)
+                    break
+            else:
+                if a.k == 'c' and b.k == 'c':
+                    r = type(a.v) is type(b.v) and a.v == b.v
+            return r if r is None or isinstance(op, ast.Is) else not r
+        if isinstance(op, (ast.Eq, ast.NotEq)):
+            r = _eq(a, b)
+            return r if r is None or isinstance(op, ast.Eq) else not r
+        if isinstance(op, (ast.Lt, ast.LtE, ast.Gt, ast.GtE)):
+            if a.k == 'c' and b.k == 'c':
+                try:
+                    return {ast.Lt: a.v < b.v, ast.LtE: a.v <= b.v, ast.Gt: a.v > b.v, ast.GtE: a.v >= b.v}[type(op)] \
+                        if True else None
+                except TypeError:
+                    return None
+            if a.k == 's' and b.k == 's':
+                return {ast.Lt: a.v < b.v, ast.LtE: a.v <= b.v, ast.Gt: a.v > b.v, ast.GtE: a.v >= b.v}[type(op)]
+            return None
+        if isinstance(op, (ast.In, ast.NotIn)):
+            s = _seq(b)
+            if s is None:
+                return None
+            rs = [_eq(a, x) for x in s]
+            r = True if any(x is True for x in rs) else (None if any(x is None for x in rs) else False)
+            return r if r is None or isinstance(op, ast.In) else not r
+        return None
+
+    # comprehensions ------------------------------------------------------------------------------------------
+    def _comp(self, e, st, make):
+        items = []
+        undecided = []
+
+        def rec(i, env_st):
+            if i == len(e.generators):
+                items.append(make(env_st))
+                return
+            g = e.generators[i]
+            it = self.ev(g.iter, env_st)
+            s = _seq(it)
+            if s is None:
+                undecided.append(it)
+                return
+            for x in s:
+                self.bind(g.target, x, env_st)
+                ok = True
+                for c in g.ifs:
+                    cv = self.ev(c, env_st)
+                    t = _truth(cv)
+                    if t is None:
+                        undecided.append(cv)
+                        ok = False
+                        break
+                    if not t:
+                        ok = False
+                        break
+                if ok:
+                    rec(i + 1, env_st)
+        inner = _St(dict(st.env), st.cache, st.under, st.flags, st.outer)     # comprehension variables do not leak
+        rec(0, inner)
+        if undecided:
+            return None, undecided
+        return items, []
+
+    def ev_ListComp(self, e, st):
+        items, und = self._comp(e, st, lambda s: self.ev(e.elt, s))
+        return AV('l', items) if items is not None else self.unknown(und, _mentions_id(e))
+
+    ev_GeneratorExp = ev_ListComp
+
+    def ev_SetComp(self, e, st):
+        items, und = self._comp(e, st, lambda s: self.ev(e.elt, s))
+        if items is None:
+            return self.unknown(und, _mentions_id(e))
+        if all(v.k == 'c' for v in items):
+            return AV('s', {v.v for v in items}, any(v.dep for v in items))
+        return self.unknown(items, _mentions_id(e))
+
+    def ev_DictComp(self, e, st):
+        items, und = self._comp(e, st, lambda s: (self.ev(e.key, s), self.ev(e.value, s)))
+        if items is None:
+            return self.unknown(und, _mentions_id(e))
+        if all(k.k == 'c' for k, _ in items):
+            return AV('d', {k.v: v for k, v in items}, any(k.dep for k, _ in items))
+        return self.unknown([x for kv in items for x in kv], _mentions_id(e))
+
+    # calls ---------------------------------------------------------------------------------------------------
+    def note_call(self, e, st):
+        """count the evaluations of the merged-index builder on this path (once per evaluation of the call)"""
+        if call_name(e).split('.')[-1] == self.builder_name and ('noted', id(e)) not in st.cache:
+            st.cache[('noted', id(e))] = True
+            st.flags['built'] += 1
+
+    def ev_Call(self, e, st):
+        if id(e) in st.cache:
+            return st.cache[id(e)]
+        cn = call_name(e)
+        self.note_call(e, st)
+        if cn.split('.')[-1] == self.input_list_call:
+            for a in list(e.args) + [k.value for k in e.keywords]:
+                self.ev(a, st)
+            return st.env.get('__inputs__') or self.inputs()
+        if any(k.arg is None for k in e.keywords):
+            parts = [self.ev(a.value if isinstance(a, ast.Starred) else a, st) for a in e.args] + [self.ev(k.value, st) for k in e.keywords]
+            return self.unknown(parts, _mentions_id(e))
+        recv = None
+        if isinstance(e.func, ast.Attribute):
+            recv = self.ev(e.func.value, st)
+        args = []
+        for a in e.args:
+            if isinstance(a, ast.Starred):
+                sv = self.ev(a.value, st)
+                q = _seq(sv)
+                if q is None:
+                    return self.unknown(args + [sv] + [self.ev(k.value, st) for k in e.keywords], _mentions_id(e))
+                args += q
+            else:
+                args.append(self.ev(a, st))
+        kw = {k.arg: self.ev(k.value, st) for k in e.keywords}
+        rec = self.record(e.func, args, kw)
+        if rec is not None:
+            return rec
+        lib = self.library(cn, recv, e, args, kw, st)
+        if lib is not None:
+            return lib
+        if _is_store_open(e):
+            elems = set()
+            for p_ in args + list(kw.values()):
+                elems |= _deep(p_, 'elem')
+            if len(elems) == 1:
+                return AV('o', 'store', True, next(iter(elems)))
+            return AV('u', None, True)
+        # a method of a concrete container
+        if recv is not None and recv.k in ('l', 't', 's', 'd', 'a'):
+            r = self.method(recv, e.func.attr, args, kw, st)
+            if r is not None:
+                return r
+            return self.unknown([recv] + args + list(kw.values()))
+        # a local function / lambda
+        f = self.ev(e.func, st) if isinstance(e.func, ast.Name) else None
+        if f is not None and f.k == 'f':
+            return self.apply(f, args, kw, st, e)
+        if isinstance(e.func, ast.Name) and e.func.id not in st.env:
+            r = self.builtin(e.func.id, args, kw, st, e)
+            if r is not None:
+                return r
+        # a helper of the repository that is handed identifier information or (objects made from) the inputs
+        parts = ([recv] if recv is not None else []) + args + list(kw.values())
+        if any(_deep(p) or _deep(p, 'elem') for p in parts):
+            callee = self.enterable(e)
+            if callee is not None:
+                return self.apply(self.fn(callee.node, callee), args, kw, st, e, method_recv=recv)
+        if recv is not None and recv.k == 'u':
+            return self.unknown(parts)
+        return self.made_from(parts, f'{cn}()')
+
+    _ENT: dict = {}
+
+    def record(self, func: ast.expr, args, kw) -> AV | None:
+        """an instance of a NamedTuple / dataclass of the module: its fields by name"""
+        name = func.id if isinstance(func, ast.Name) else (func.attr if isinstance(func, ast.Attribute) else None)
+        mod = getattr(self.fi, 'module', None)
+        if name is None or mod is None:
+            return None
+        cls = next((k for q, k in mod.classes.items() if q.split('.')[-1] == name), None)
+        if cls is None:
+            return None
+        is_record = any(str(b).split('.')[-1] == 'NamedTuple' for b in cls.base_exprs) \
+            or any('dataclass' in norm(d) for d in cls.node.decorator_list)
+        if not is_record:
+            return None
+        fields = list(cls.annotated_fields())
+        defaults = {k: v for k, v in cls.class_assignments().items() if v is not None}
+        if len(args) > len(fields) or any(k not in fields for k in kw):
+            return None
+        vals = dict(zip(fields, args))
+        for k, v in kw.items():
+            if k in vals:
+                return None
+            vals[k] = v
+        for f in fields:
+            if f not in vals:
+                if f not in defaults:
+                    return None
+                vals[f] = self.ev(defaults[f], _St())
+        return AV('r', {f: vals[f] for f in fields})
+
+    def call_value(self, f: AV, args, st, call) -> AV:
+        """f(*args) for a function value: a local function / lambda, or an item / attribute getter"""
+        if f.k == 'f':
+            return self.apply(f, list(args), {}, st, call)
+        if f.k == 'o' and isinstance(f.v, tuple) and f.v[0] == 'getter' and len(args) == 1:
+            x = args[0]
+            if x.k == 'r' and isinstance(f.v[1], str) and f.v[1] in x.v:
+                return x.v[f.v[1]]
+            if x.k == 'r':
+                x = AV('t', tuple(x.v.values()))
+            if isinstance(f.v[1], int) and x.k in ('l', 't') and -len(x.v) <= f.v[1] < len(x.v):
+                return x.v[f.v[1]]
+        return self.unknown(list(args) + [f])
+
+    def library(self, cn: str, recv, e: ast.Call, args, kw, st) -> AV | None:
+        """the few library functions that only re-arrange values: numpy on one-dimensional arrays, itertools, operator"""
+        root, _, last = cn.rpartition('.')
+        dep = any(_deep(a) for a in args)
+
+        def arr(v):
+            q = _seq(v) if v.k in ('l', 't', 'a') else None
+            return q if q is not None and all(x.k == 'c' for x in q) else None
+        try:
+            if root in ('np', 'numpy', 'np.ma', 'numpy.ma'):
+                if last in ('asarray', 'array', 'ascontiguousarray', 'getdata', 'filled', 'copy', 'sort', 'int64', 'int32') and args:
+                    if args[0].k == 'c' and last in ('int64', 'int32'):
+                        return args[0]
+                    q = arr(args[0])
+                    if q is None:
+                        return None
+                    if last == 'sort':
+                        q = sorted(q, key=lambda x: x.v)
+                    return AV('a', list(q), args[0].dep)
+                if last in ('concatenate', 'hstack') and args:
+                    parts = _seq(args[0])
+                    qs = [arr(x) for x in parts] if parts is not None else None
+                    if qs is None or any(q is None for q in qs):
+                        return None
+                    return AV('a', [x for q in qs for x in q], dep)
+                if last == 'append' and len(args) == 2:
+                    a_, b_ = arr(args[0]), (arr(args[1]) if args[1].k != 'c' else [args[1]])
+                    return AV('a', a_ + b_, dep) if a_ is not None and b_ is not None else None
+                if last == 'argsort' and args:
+                    q = arr(args[0])
+                    if q is None:
+                        return None
+                    return AV('a', [AV('c', i, dep) for i in sorted(range(len(q)), key=lambda i: q[i].v)], dep)
+                if last == 'arange' and args and all(a.k == 'c' and isinstance(a.v, int) for a in args):
+                    return AV('a', [AV('c', i, dep) for i in range(*(a.v for a in args))], dep)
+                if last == 'cumsum' and args:
+                    q = arr(args[0])
+                    if q is None:
+                        return None
+                    out, t = [], 0
+                    for x in q:
+                        t += x.v
+                        out.append(AV('c', t, dep))
+                    return AV('a', out, dep)
+                if last in ('zeros', 'empty') and args and args[0].k == 'c' and isinstance(args[0].v, int):
+                    return AV('a', [AV('c', 0, dep) for _ in range(args[0].v)], dep)
+                if last == 'full' and len(args) >= 2 and args[0].k == 'c' and isinstance(args[0].v, int) and args[1].k == 'c':
+                    return AV('a', [AV('c', args[1].v, dep) for _ in range(args[0].v)], dep)
+                if last == 'fromiter' and args:
+                    q = arr(args[0])
+                    return AV('a', list(q), dep) if q is not None else None
+                return None
+            if cn in ('itertools.accumulate', 'accumulate') and args and len(args) == 1 and 'func' not in kw:
+                q = arr(args[0])
+                if q is None or not all(isinstance(x.v, (int, float)) for x in q):
+                    return None
+                out, t = [], None
+                ini = kw.get('initial')
+                if ini is not None and ini.k == 'c' and ini.v is not None:
+                    t = ini.v
+                    out.append(AV('c', t, dep))
+                for x in q:
+                    t = x.v if t is None else t + x.v
+                    out.append(AV('c', t, dep))
+                return AV('l', out, dep)
+            if cn in ('itertools.chain', 'chain') and args:
+                qs = [_seq(a) for a in args]
+                return AV('l', [x for q in qs for x in q], dep) if all(q is not None for q in qs) else None
+            if cn in ('itertools.chain.from_iterable', 'chain.from_iterable') and len(args) == 1:
+                parts = _seq(args[0])
+                qs = [_seq(x) for x in parts] if parts is not None else None
+                return AV('l', [x for q in qs for x in q], dep) if qs is not None and all(q is not None for q in qs) else None
+            if cn in ('operator.itemgetter', 'itemgetter', 'operator.attrgetter', 'attrgetter') and len(args) == 1 and args[0].k == 'c':
+                return AV('o', ('getter', args[0].v))
+            if isinstance(e.func, ast.Attribute) and last == 'enter_context' and len(args) == 1 and not kw:
+                return args[0]              # ExitStack.enter_context(cm) gives what `with cm as x` gives
+            if isinstance(e.func, ast.Attribute) and last == 'createVariable' and recv is not None and recv.k == 'o' \
+                    and args and args[0].k == 'c' and isinstance(args[0].v, str):
+                return AV('o', ('var', args[0].v), recv.dep, recv.elem)
+        except (_Raised, TTUndecided):
+            raise
+        except Exception:
+            return None
+        return None
+
+    def enterable(self, c: ast.Call):
+        key = (id(c), id(self.fi.node), self.enter_helpers)
+        if key not in self._ENT:
+            self._ENT[key] = (c, self._enterable(c))       # (the node is kept so that its id stays unique)
+        return self._ENT[key][1]
+
+    def _enterable(self, c: ast.Call):
+        if not self.enter_helpers:
+            return None
+        fi = self.fi
+        try:
+            callee = resolve_call(self.prog, fi, c)
+        except Exception:
+            callee = None
+        if callee is None or callee.node is fi.node or callee.name == self.input_list_call:
+            return None
+        if not ((callee.name.startswith('_') and not callee.name.startswith('__')) or '<locals>' in callee.qualname):
+            return None          # the public methods are the vocabulary (`TrajectoryStore.open`, `len(store)`)
+        if any(isinstance(x, (ast.Yield, ast.YieldFrom, ast.Await)) for x in walk_no_nested(callee.node)):
+            return None
+        return callee
+
+    def apply(self, f: AV, args, kw, st: _St, call, method_recv=None):
+        """value of calling a local function, a lambda or a repository helper on this path; the callee's own forks
+        must agree (the statement-level pre-evaluation `precall` handles the ones that do not)"""
+        try:
+            outs = self.call_paths(f, args, kw, st, call, method_recv)
+        except _CannotEnter as ex:
+            return self.not_entered(f, args, kw, method_recv, call, ex)
+        outs = [(s, c) for s, c in outs if not (c[0] == 'raise' and not c[1])]
+        if not outs:
+            raise _Raised(False, call)
+        kinds = {c[0] for _, c in outs}
+        if kinds == {'raise'}:
+            raise _Raised(all(c[1] for _, c in outs), call)
+        if kinds == {'return'}:
+            vals = [c[1] for _, c in outs]
+            if len(vals) == 1 or all(_eq(vals[0], v) is True and v.k == 'c' for v in vals[1:]):
+                back = outs[0][0].outer
+                if back is not None and back is not st:
+                    st.env, st.cache = back.env, back.cache
+                st.flags = outs[0][0].flags
+                return vals[0]
+        raise TTUndecided(f'the paths through {call_name(call)} disagree inside an expression')
+
+    def not_entered(self, f: AV, args, kw, recv, call, why) -> AV:
+        """a helper that cannot be interpreted is an opaque computation - unless it can refuse or looks at identifiers"""
+        node = self.funcs[f.v][0]
+        if any(isinstance(x, (ast.Raise, ast.Assert)) for x in ast.walk(node)) or _mentions_id(node):
+            raise TTUndecided(str(why))
+        return self.made_from(([recv] if recv is not None else []) + list(args) + list(kw.values()), f'{call_name(call)}()')
+
+    def call_paths(self, f: AV, args, kw, st: _St, call, method_recv=None):
+        node, fi = self.funcs[f.v]
+        if self.depth >= 4:
+            raise TTUndecided('call depth')
+        a = node.args
+        pos = [x.arg for x in a.posonlyargs + a.args]
+        decs = [d.split('.')[-1] for d in fi.decorators()] if fi is not None else []
+        if fi is not None and pos and pos[0] in ('self', 'cls') and 'staticmethod' not in decs:
+            first = pos[0]
+            pos = pos[1:]
+        else:
+            first = None
+        env = dict(st.env) if fi is None else {}
+        if first is not None:
+            env[first] = method_recv if method_recv is not None else AV('o', first)
+        defaults = dict(zip(reversed([x.arg for x in a.posonlyargs + a.args]), reversed(a.defaults)))
+        for k, d in zip(a.kwonlyargs, a.kw_defaults):
+            if d is not None:
+                defaults[k.arg] = d
+        if len(args) > len(pos) and not a.vararg:
+            raise _CannotEnter(f'call shape of {call_name(call)}')
+        bound = dict(zip(pos, args))
+        if a.vararg:
+            bound[a.vararg.arg] = AV('t', tuple(args[len(pos):]))
+        extra = {}
+        names = pos + [x.arg for x in a.kwonlyargs]
+        for k, v in kw.items():
+            if k in bound:
+                raise _CannotEnter(f'call shape of {call_name(call)}')
+            if k not in names:
+                if not a.kwarg:
+                    raise _CannotEnter(f'call shape of {call_name(call)}')
+                extra[k] = v
+                continue
+            bound[k] = v
+        if a.kwarg:
+            bound[a.kwarg.arg] = AV('d', extra)
+        for p in names:
+            if p not in bound:
+                if p not in defaults:
+                    raise _CannotEnter(f'call shape of {call_name(call)}')
+                bound[p] = self.ev(defaults[p], _St())
+        env.update(bound)
+        sub = _St(env, {}, st.under, st.flags, st)
+        self.depth += 1
+        old_fi = self.fi
+        if fi is not None:
+            self.fi = fi
+        try:
+            if isinstance(node, ast.Lambda):
+                try:
+                    outs = [(sub, ('return', self.ev(node.body, sub)))]
+                except _Raised as r:
+                    outs = [(sub, ('raise', r.known, r.node))]
+            else:
+                outs = []
+                for s, c in self.block(node.body, [sub]):
+                    if c is None:
+                        c = ('return', AV('c', None))
+                    if c[0] in ('break', 'continue'):
+                        continue
+                    outs.append((s, c))
+        finally:
+            self.depth -= 1
+            self.fi = old_fi
+        return outs
+
+    def method(self, r: AV, name: str, args, kw, st):
+        try:
+            if r.k == 'a':
+                if name in ('tolist',) and not args:
+                    return AV('l', list(r.v), r.dep)
+                if name in ('copy', 'astype', 'filled', 'compressed', 'flatten', 'ravel', 'view'):
+                    return AV('a', list(r.v), r.dep)
+                if name == 'argsort' and not args and all(x.k == 'c' for x in r.v):
+                    return AV('a', [AV('c', i, r.dep) for i in sorted(range(len(r.v)), key=lambda i: r.v[i].v)], r.dep)
+                return None
+            if r.k == 'l' and name == 'sort' and not args and set(kw) <= {'key', 'reverse'}:
+                q = self._sorted(r.v, kw, st, None)
+                if q is None:
+                    r.k, r.v, r.dep = 'u', None, _deep(r)
+                else:
+                    r.v[:] = q
+                return AV('c', None)
+            if r.k == 'l':
+                if name == 'append' and len(args) == 1:
+                    r.v.append(args[0])
+                    return AV('c', None)
+                if name == 'extend' and len(args) == 1:
+                    s = _seq(args[0])
+                    if s is None:
+                        r.k, r.v, r.dep = 'u', None, r.dep or _deep(args[0]) or any(_deep(x) for x in r.v or [])
+                        return AV('c', None)
+                    r.v.extend(s)
+                    return AV('c', None)
+                if name == 'insert' and len(args) == 2 and args[0].k == 'c':
+                    r.v.insert(args[0].v, args[1])
+                    return AV('c', None)
+                if name == 'copy' and not args:
+                    return AV('l', list(r.v), r.dep)
+                if name == 'reverse' and not args:
+                    r.v.reverse()
+                    return AV('c', None)
+                if name == 'pop' and len(args) <= 1 and all(a.k == 'c' for a in args) and r.v:
+                    return r.v.pop(*[a.v for a in args])
+                if name == 'clear':
+                    r.v.clear()
+                    return AV('c', None)
+            if r.k in ('l', 't'):
+                if name == 'count' and len(args) == 1:
+                    rs = [_eq(x, args[0]) for x in r.v]
+                    dep = _deep(r) or _deep(args[0])
+                    return AV('u', None, dep) if any(x is None for x in rs) else AV('c', sum(1 for x in rs if x), dep)
+                if name == 'index' and len(args) == 1:
+                    for i, x in enumerate(r.v):
+                        q = _eq(x, args[0])
+                        if q is None:
+                            break
+                        if q:
+                            return AV('c', i, _deep(r) or _deep(args[0]))
+                    return AV('u', None, _deep(r) or _deep(args[0]))
+            if r.k == 's':
+                if name == 'add' and len(args) == 1 and args[0].k == 'c':
+                    r.v.add(args[0].v)
+                    r.dep = r.dep or args[0].dep
+                    return AV('c', None)
+                if name in ('update', 'union', 'intersection', 'difference', 'symmetric_difference', 'issubset', 'issuperset',
+                            'isdisjoint') and len(args) == 1:
+                    s = _seq(args[0])
+                    if s is not None and all(x.k == 'c' for x in s):
+                        o = {x.v for x in s}
+                        dep = r.dep or _deep(args[0])
+                        if name == 'update':
+                            r.v |= o
+                            r.dep = dep
+                            return AV('c', None)
+                        res = getattr(r.v, name)(o)
+                        return AV('c', res, dep) if isinstance(res, bool) else AV('s', res, dep)
+                if name == 'discard' and len(args) == 1 and args[0].k == 'c':
+                    r.v.discard(args[0].v)
+                    return AV('c', None)
+                if name == 'copy':
+                    return AV('s', set(r.v), r.dep)
+            if r.k == 'd':
+                if name == 'get' and args and args[0].k == 'c':
+                    return r.v.get(args[0].v, args[1] if len(args) > 1 else AV('c', None))
+                if name == 'keys' and not args:
+                    return AV('s', set(r.v), r.dep)
+                if name == 'values' and not args:
+                    return AV('l', list(r.v.values()), r.dep)
+                if name == 'items' and not args:
+                    return AV('l', [AV('t', (AV('c', k, r.dep), v)) for k, v in r.v.items()])
+                if name == 'setdefault' and len(args) == 2 and args[0].k == 'c':
+                    return r.v.setdefault(args[0].v, args[1])
+                if name == 'update' and not args:
+                    r.v.update(kw)
+                    return AV('c', None)
+                if name == 'copy':
+                    return AV('d', dict(r.v), r.dep)
+        except _Raised:
+            raise
+        except Exception:
+            return None
+        if name in MUTATING_METHODS and r.k in ('l', 's', 'd'):
+            # an in-place change this interpreter does not model: the container is unknown from here on
+            dep = _deep(r) or any(_deep(a) for a in args)
+            r.k, r.v, r.dep = 'u', None, dep
+            return AV('c', None)
+        return None
+
+    def _sorted(self, items, kw, st, call):
+        """the items in ascending order of their (concrete) keys, or None"""
+        rev = kw.get('reverse', AV('c', False))
+        if rev.k != 'c':
+            return None
+        key = kw.get('key')
+        keys = []
+        for x in items:
+            kv = x if key is None or (key.k == 'c' and key.v is None) else self.call_value(key, [x], st, call)
+            py = _concrete(kv)
+            if py is _NO:
+                return None
+            keys.append(py)
+        try:
+            order = sorted(range(len(items)), key=lambda i: keys[i], reverse=bool(rev.v))
+        except TypeError:
+            return None
+        return [items[i] for i in order]
+
+    def builtin(self, name: str, args, kw, st, call):
+        A = args
+        dep = any(_deep(a) for a in A) or any(_deep(v) for v in kw.values())
+        try:
+            if name in ('all', 'any') and len(A) == 1:
+                s = _seq(A[0])
+                if s is None:
+                    return AV('u', None, dep)
+                ts = [_truth(x) for x in s]
+                st.used = st.used or dep
+                if name == 'all':
+                    r = False if any(t is False for t in ts) else (None if any(t is None for t in ts) else True)
+                else:
+                    r = True if any(t is True for t in ts) else (None if any(t is None for t in ts) else False)
+                return AV('c', r, dep) if r is not None else AV('u', None, dep)
+            if name == 'len' and len(A) == 1:
+                if A[0].k == 'o' and A[0].v == 'store' and A[0].elem is not None and self.sizes is not None:
+                    return AV('c', self.sizes[A[0].elem], True)
+                return AV('c', len(A[0].v), dep) if A[0].k in ('l', 't', 's', 'd', 'a') else AV('u', None, dep)
+            if name in ('list', 'tuple', 'iter') and len(A) <= 1:
+                if not A:
+                    return AV('l' if name != 'tuple' else 't', [] if name != 'tuple' else ())
+                s = _seq(A[0])
+                if s is None:
+                    return AV('u', None, dep)
+                return AV('t', tuple(s), A[0].dep) if name == 'tuple' else AV('l', list(s), A[0].dep)
+            if name in ('set', 'frozenset') and len(A) <= 1:
+                if not A:
+                    return AV('s', set())
+                s = _seq(A[0])
+                if s is not None and all(x.k == 'c' for x in s):
+                    return AV('s', {x.v for x in s}, dep)
+                return self.made_from(A, 'set') if A[0].k == 'o' else AV('u', None, dep)
+            if name == 'dict':
+                if not A:
+                    return AV('d', dict(kw))
+                return AV('u', None, dep)
+            if name == 'bool' and len(A) == 1:
+                t = _truth(A[0])
+                return AV('c', t, dep) if t is not None else AV('u', None, dep)
+            if name == 'int' and len(A) == 1 and A[0].k == 'c' and isinstance(A[0].v, (bool, int)):
+                return AV('c', int(A[0].v), dep)
+            if name == 'sum' and 1 <= len(A) <= 2:
+                s = _seq(A[0])
+                start = A[1] if len(A) == 2 else kw.get('start', AV('c', 0))
+                if s is not None and all(x.k == 'c' and isinstance(x.v, (bool, int, float)) for x in s + [start]):
+                    return AV('c', sum((x.v for x in s), start.v), dep)
+                return AV('u', None, dep)
+            if name in ('min', 'max') and A:
+                s = _seq(A[0]) if len(A) == 1 else list(A)
+                if s and all(x.k == 'c' and x.v is not None for x in s) and not kw:
+                    return AV('c', (min if name == 'min' else max)(x.v for x in s), dep)
+                return AV('u', None, dep)
+            if name == 'range' and 1 <= len(A) <= 3:
+                if all(a.k == 'c' and isinstance(a.v, int) for a in A):
+                    return AV('l', [AV('c', i, dep) for i in range(*(a.v for a in A))])
+                return AV('u', None, dep)
+            if name == 'enumerate' and A:
+                s = _seq(A[0])
+                start = A[1] if len(A) > 1 else kw.get('start', AV('c', 0))
+                if s is not None and start.k == 'c':
+                    return AV('l', [AV('t', (AV('c', i + start.v), x)) for i, x in enumerate(s)], A[0].dep)
+                return AV('u', None, dep)
+            if name == 'zip' and A:
+                ss = [_seq(a) for a in A]
+                if all(s is not None for s in ss):
+                    return AV('l', [AV('t', tuple(xs)) for xs in zip(*ss)], any(a.dep for a in A))
+                return AV('u', None, dep)
+            if name == 'reversed' and len(A) == 1:
+                s = _seq(A[0])
+                return AV('l', s[::-1], A[0].dep) if s is not None else AV('u', None, dep)
+            if name == 'sorted' and len(A) == 1:
+                s = _seq(A[0])
+                q = self._sorted(s, kw, st, call) if s is not None and set(kw) <= {'key', 'reverse'} else None
+                return AV('l', q, A[0].dep) if q is not None else AV('u', None, dep)
+            if name in ('map', 'filter') and len(A) == 2:
+                s = _seq(A[1])
+                getter = A[0].k == 'o' and isinstance(A[0].v, tuple) and A[0].v[0] == 'getter'
+                if s is None or (A[0].k != 'f' and not getter and not (name == 'filter' and A[0].k == 'c' and A[0].v is None)):
+                    return AV('u', None, dep)
+                out = []
+                for x in s:
+                    r = x if A[0].k == 'c' else self.call_value(A[0], [x], st, call)
+                    if name == 'map':
+                        out.append(r)
+                        continue
+                    t = _truth(r)
+                    if t is None:
+                        return AV('u', None, dep or _deep(r))
+                    if t:
+                        out.append(x)
+                return AV('l', out, A[1].dep)
+            if name in ('getattr',) and 2 <= len(A) <= 3 and A[1].k == 'c' and isinstance(A[1].v, str):
+                if _is_model(A[0]) and A[1].v in A[0].v[2] and A[1].v not in A[0].v[1]:
+                    if len(A) == 3:
+                        return A[2]
+                    raise _Raised(False, call)        # AttributeError
+                return self.attribute(A[0], A[1].v, st)
+            if name == 'hasattr' and len(A) == 2 and A[1].k == 'c':
+                if _is_model(A[0]) and A[1].v in A[0].v[2]:
+                    return AV('c', A[1].v in A[0].v[1], True)
+                return AV('u', None, dep or A[1].v in STORE_ATTRS)
+            if name == 'isinstance':
+                return AV('u', None, dep)
+            if name == 'next' and A:
+                return AV('u', None, dep)
+            if name in ('print', 'repr', 'str', 'id', 'type', 'hash', 'format'):
+                return self.made_from(A, name)
+        except _Raised:
+            raise
+        except TTUndecided:
+            raise
+        except Exception:
+            return AV('u', None, dep)
+        return None
+
+    # ---- statements ------------------------------------------------------------------------------------------
+    def bind(self, t, v: AV, st: _St):
+        if isinstance(t, ast.Name):
+            st.env[t.id] = v
+        elif isinstance(t, (ast.Tuple, ast.List)):
+            s = _seq(v) if v.k in ('l', 't', 'r', 'a') else None
+            plain = not any(isinstance(x, ast.Starred) for x in t.elts)
+            if s is not None and plain and len(s) == len(t.elts):
+                for x, y in zip(t.elts, s):
+                    self.bind(x, y if not v.dep else AV(y.k, y.v, True, y.elem), st)
+            else:
+                for x in t.elts:
+                    x = x.value if isinstance(x, ast.Starred) else x
+                    self.bind(x, self.made_from([v], 'component') if v.k == 'o' else self.unknown([v]), st)
+        elif isinstance(t, ast.Subscript):
+            b = self.ev(t.value, st)
+            if b.k == 'o' and isinstance(b.v, tuple) and b.v[0] == 'var':
+                sl = t.slice
+                whole = (isinstance(sl, ast.Slice) and sl.lower is None and sl.upper is None and sl.step is None) \
+                    or (isinstance(sl, ast.Constant) and sl.value is Ellipsis)
+                st.flags.setdefault('writes', []).append((b.v[1], v if whole else AV('u', None, True)))
+                return
+            i = self.ev(t.slice, st) if not isinstance(t.slice, ast.Slice) else AV('u')
+            if b.k == 'd' and i.k == 'c':
+                b.v[i.v] = v
+            elif b.k == 'l' and i.k == 'c' and isinstance(i.v, int) and -len(b.v) <= i.v < len(b.v):
+                b.v[i.v] = v
+            elif b.k in ('l', 'd'):
+                b.k, b.v, b.dep = 'u', None, _deep(b) or _deep(v) or _deep(i)
+        elif isinstance(t, ast.Attribute):
+            b = self.ev(t.value, st)
+            if _is_model(b):
+                b.v[1][t.attr] = v
+        elif isinstance(t, ast.Starred):
+            self.bind(t.value, v, st)
+
+    def block(self, stmts, states):
+        """[(state, control)] with control None | ('return', value) | ('raise', known, node) | ('break',) | ('continue',)"""
+        done = []
+        live = list(states)
+        for s in stmts:
+            nxt = []
+            for st in live:
+                for st2, c in self.stmt(s, st):
+                    if c is None:
+                        nxt.append(st2)
+                    else:
+                        done.append((st2, c))
+            live = nxt
+            if len(live) + len(done) > self.cap:
+                raise TTUndecided(f'more than {self.cap} paths')
+            if not live:
+                break
+        return done + [(st, None) for st in live]
+
+    def branch(self, test: AV, st: _St, what: str):
+        """[(state, truth, forked)] - decided, or forked on an opaque test"""
+        t = _truth(test)
+        if t is not None:
+            if _deep(test):
+                st.used = True
+            return [(st, t, False)]
+        if _deep(test):
+            raise TTUndecided(f'`{what[:70]}` depends on what was read from an input store in a way that cannot be evaluated')
+        if _deep(test, 'elem'):
+            self.foreign_elem = True        # an opaque test about one of the inputs (its path, …)
+        a, b = st.fork(), st
+        a.under += 1
+        b.under += 1
+        return [(a, True, True), (b, False, True)]
+
+    def precall(self, exprs, st: _St):
+        """evaluate the repository helpers called in the head of a statement first, one path per way through them;
+        -> [(state, control)]"""
+        calls = []
+        for e in exprs:
+            if e is None:
+                continue
+            for x in walk_no_nested(e, include_lambda=False):
+                if isinstance(x, ast.Call) and not any(isinstance(a, (ast.ListComp, ast.SetComp, ast.DictComp, ast.GeneratorExp,
+                                                                      ast.IfExp, ast.BoolOp)) for a in ancestors(x)
+                                                       if a is not e and _within(a, e)):
+                    calls.append(x)
+        calls.sort(key=lambda c: (getattr(c, 'end_lineno', 0), getattr(c, 'end_col_offset', 0)))   # inner calls end first
+        states = [(st, None)]
+        for c in calls:
+            nxt = []
+            for s, ctl in states:
+                if ctl is not None:
+                    nxt.append((s, ctl))
+                    continue
+                tgt = self._enter_target(c, s)
+                if tgt is None:
+                    nxt.append((s, None))
+                    continue
+                f, args, kw, recv = tgt
+                try:
+                    paths = self.call_paths(f, args, kw, s, c, recv)
+                except _CannotEnter as ex:
+                    s.cache[id(c)] = self.not_entered(f, args, kw, recv, c, ex)
+                    nxt.append((s, None))
+                    continue
+                for s2, c2 in paths:
+                    if c2[0] == 'raise':
+                        nxt.append((self._back(s, s2), c2))
+                    else:
+                        s3 = self._back(s, s2)
+                        s3.cache[id(c)] = c2[1]
+                        nxt.append((s3, None))
+            states = nxt
+        return states
+
+    def _back(self, caller: _St, callee: _St) -> _St:
+        """the caller's path after a call: its own variables (objects changed in place by the callee are shared),
+        the callee's bookkeeping"""
+        back = callee.outer if callee.outer is not None else caller
+        back.under, back.flags = callee.under, callee.flags
+        return back
+
+    def _enter_target(self, c: ast.Call, st: _St):
+        if id(c) in st.cache or call_name(c).split('.')[-1] == self.input_list_call:
+            return None
+        if any(isinstance(a, ast.Starred) for a in c.args) or any(k.arg is None for k in c.keywords):
+            return None
+        self.note_call(c, st)
+        local = isinstance(c.func, ast.Name) and c.func.id in st.env and st.env[c.func.id].k == 'f'
+        if local:
+            f = st.env[c.func.id]
+            if isinstance(self.funcs[f.v][0], ast.Lambda):
+                return None
+        else:
+            callee = self.enterable(c)
+            if callee is None:
+                return None
+            f = self.fn(callee.node, callee)
+        recv = self.ev(c.func.value, st) if isinstance(c.func, ast.Attribute) else None
+        args = [self.ev(a, st) for a in c.args]
+        kw = {k.arg: self.ev(k.value, st) for k in c.keywords}
+        parts = ([recv] if recv is not None else []) + args + list(kw.values())
+        if not local and not any(_deep(p) or _deep(p, 'elem') for p in parts):
+            st.cache[id(c)] = self.made_from(parts, f'{call_name(c)}()')      # nothing about the inputs goes in
+            return None
+        return f, args, kw, recv
+
+    def heads(self, s):
+        if isinstance(s, (ast.Assign, ast.AnnAssign, ast.AugAssign, ast.Return, ast.Expr)):
+            return [s.value]
+        if isinstance(s, (ast.If, ast.While, ast.Assert)):
+            return [s.test]
+        if isinstance(s, (ast.For, ast.AsyncFor)):
+            return [s.iter]
+        if isinstance(s, (ast.With, ast.AsyncWith)):
+            return [i.context_expr for i in s.items]
+        if isinstance(s, ast.Raise):
+            return [s.exc]
+        return []
+
+    def stmt(self, s, st: _St):
+        out = []
+        try:
+            pre = self.precall(self.heads(s), st) if not isinstance(s, ast.While) else [(st, None)]
+        except _Raised as r:
+            return [(st, ('raise', r.known and st.under == 0, r.node))]
+        for st1, ctl in pre:
+            if ctl is not None:
+                out.append((st1, ('raise', ctl[1] and st1.under == 0, ctl[2]) if ctl[0] == 'raise' else ctl))
+                continue
+            try:
+                res = self.stmt1(s, st1)
+            except _Raised as r:
+                res = [(st1, ('raise', r.known and st1.under == 0, r.node))]
+            for s2, _ in res:
+                s2.cache = {}
+            out += res
+        return out
+
+    def stmt1(self, s, st: _St):
+        if isinstance(s, (ast.Assign, ast.AnnAssign)):
+            if s.value is None:
+                return [(st, None)]
+            v = self.ev(s.value, st)
+            for t in (s.targets if isinstance(s, ast.Assign) else [s.target]):
+                self.bind(t, v, st)
+            return [(st, None)]
+        if isinstance(s, ast.AugAssign):
+            v = self.ev(s.value, st)
+            if isinstance(s.target, ast.Name):
+                cur = st.env.get(s.target.id, AV('u'))
+                if cur.k == 'l' and isinstance(s.op, ast.Add):
+                    q = _seq(v)
+                    if q is not None:
+                        cur.v.extend(q)
+                    else:
+                        cur.k, cur.v, cur.dep = 'u', None, _deep(cur) or _deep(v)
+                    return [(st, None)]
+                if cur.k == 's' and v.k == 's' and isinstance(s.op, (ast.BitOr, ast.BitAnd, ast.Sub, ast.BitXor)):
+                    f = {ast.BitOr: set.__or__, ast.BitAnd: set.__and__, ast.Sub: set.__sub__, ast.BitXor: set.__xor__}[type(s.op)]
+                    st.env[s.target.id] = AV('s', f(cur.v, v.v), cur.dep or v.dep)
+                    return [(st, None)]
+                st.env[s.target.id] = self._binop_values(s.op, cur, v)
+            else:
+                self.bind(s.target, self.unknown([v]), st)
+            return [(st, None)]
+        if isinstance(s, ast.Expr):
+            self.ev(s.value, st)
+            return [(st, None)]
+        if isinstance(s, ast.If):
+            out = []
+            for st2, t, forked in self.branch(self.ev(s.test, st), st, norm(s.test)):
+                body = s.body if t else s.orelse
+                res = self.block(body, [st2])
+                if forked:
+                    for s3, c in res:
+                        if c is None or c[0] != 'raise':
+                            s3.under -= 1        # past the join the path is no longer control-dependent on the test …
+                            # … unless it left the other branch by an early exit; that is handled by `accepted` paths
+                out += res
+            return out
+        if isinstance(s, (ast.For, ast.AsyncFor)):
+            it = self.ev(s.iter, st)
+            q = _seq(it)
+            if q is None:
+                return self._skip_loop(s, st, it)
+            live, done = [st], []
+            for x in q:
+                nxt = []
+                for s1 in live:
+                    self.bind(s.target, x if not it.dep else AV(x.k, x.v, True, x.elem), s1)
+                    for s2, c in self.block(s.body, [s1]):
+                        if c is None or c[0] == 'continue':
+                            nxt.append(s2)
+                        elif c[0] == 'break':
+                            done.append((s2, ('broke',)))
+                        else:
+                            done.append((s2, c))
+                live = nxt
+                if len(live) + len(done) > self.cap:
+                    raise TTUndecided(f'more than {self.cap} paths')
+            out = []
+            if s.orelse:
+                out += self.block(s.orelse, live)
+            else:
+                out += [(x, None) for x in live]
+            for s2, c in done:
+                out.append((s2, None) if c[0] == 'broke' else (s2, c))
+            return out
+        if isinstance(s, ast.While):
+            live, out = [st], []
+            for _ in range(8):
+                nxt = []
+                for s1 in live:
+                    tv = self.ev(s.test, s1)
+                    t = _truth(tv)
+                    if t is None:
+                        out += self._skip_loop(s, s1, tv)
+                        continue
+                    if not t:
+                        out.append((s1, None))
+                        continue
+                    for s2, c in self.block(s.body, [s1]):
+                        if c is None or c[0] == 'continue':
+                            nxt.append(s2)
+                        elif c[0] == 'break':
+                            out.append((s2, None))
+                        else:
+                            out.append((s2, c))
+                live = nxt
+                if not live:
+                    break
+            for s1 in live:
+                out += self._skip_loop(s, s1, AV('u'))
+            return out
+        if isinstance(s, (ast.With, ast.AsyncWith)):
+            for it in s.items:
+                v = self.ev(it.context_expr, st)
+                if it.optional_vars is not None:
+                    self.bind(it.optional_vars, v, st)        # (`with Store.open(…) as ts`, `with open(…) as f`)
+            return self.block(s.body, [st])
+        if isinstance(s, ast.Try) or type(s).__name__ == 'TryStar':
+            out = []
+            for s1, c in self.block(s.body, [st]):
+                if c is not None and c[0] == 'raise' and s.handlers:
+                    exc = c[2].exc if isinstance(c[2], ast.Raise) and c[2].exc is not None else None
+                    ename = call_name(exc).split('.')[-1] if isinstance(exc, ast.Call) else (norm(exc).split('.')[-1] if exc is not None else None)
+                    caught = None
+                    for h in s.handlers:
+                        names = [] if h.type is None else [norm(x).split('.')[-1] for x in
+                                                          (h.type.elts if isinstance(h.type, ast.Tuple) else [h.type])]
+                        if h.type is None or 'Exception' in names or 'BaseException' in names or (ename and ename in names):
+                            caught = h
+                            break
+                    if caught is not None:
+                        if caught.name:
+                            s1.env[caught.name] = AV('o', 'exception')
+                        out += self.block(caught.body, [s1])
+                        continue
+                    if ename is None:
+                        raise TTUndecided('re-raise inside try')
+                if c is None and s.orelse:
+                    out += self.block(s.orelse, [s1])
+                else:
+                    out.append((s1, c))
+            if s.finalbody:
+                fin = []
+                for s1, c in out:
+                    for s2, c2 in self.block(s.finalbody, [s1]):
+                        fin.append((s2, c2 if c2 is not None else c))
+                out = fin
+            return out
+        if isinstance(s, ast.Return):
+            return [(st, ('return', self.ev(s.value, st) if s.value is not None else AV('c', None)))]
+        if isinstance(s, ast.Raise):
+            if s.exc is not None:
+                self.ev(s.exc, st)
+            return [(st, ('raise', st.under == 0, s))]
+        if isinstance(s, ast.Assert):
+            tv = self.ev(s.test, st)
+            t = _truth(tv)
+            if t is None and _deep(tv):
+                raise TTUndecided(f'`assert {norm(s.test)[:60]}` depends on the inputs in a way that cannot be evaluated')
+            if t is False:
+                # an assertion is not a refusal (it documents an invariant and disappears under -O): the path goes on
+                st.flags['asserts'] = st.flags.get('asserts', 0) + 1
+            return [(st, None)]
+        if isinstance(s, (ast.FunctionDef, ast.AsyncFunctionDef)):
+            st.env[s.name] = self.fn(s)
+            return [(st, None)]
+        if isinstance(s, ast.ClassDef):
+            st.env[s.name] = AV('o', s.name)
+            return [(st, None)]
+        if isinstance(s, ast.Delete):
+            for t in s.targets:
+                if isinstance(t, ast.Name):
+                    st.env.pop(t.id, None)
+                else:
+                    self.bind(t, AV('u'), st)
+            return [(st, None)]
+        if isinstance(s, ast.Break):
+            return [(st, ('break',))]
+        if isinstance(s, ast.Continue):
+            return [(st, ('continue',))]
+        if isinstance(s, ast.Match):
+            subj = self.ev(s.subject, st)
+            if _deep(subj) or _mentions_id(s):
+                raise TTUndecided('match statement over identifier information')
+            out = []
+            for c in s.cases:
+                s1 = st.fork()
+                s1.under += 1
+                for x in ast.walk(c.pattern):
+                    for f in ('name', 'rest'):
+                        if isinstance(getattr(x, f, None), str):
+                            s1.env[getattr(x, f)] = AV('u')
+                res = self.block(c.body, [s1])
+                for s3, cc in res:
+                    if cc is None or cc[0] != 'raise':
+                        s3.under -= 1
+                out += res
+            return out + [(st, None)]
+        return [(st, None)]       # pass, import, global, nonlocal
+
+    def _binop_values(self, op, a: AV, b: AV) -> AV:
+        n = ast.BinOp(left=ast.Name(id='__a__', ctx=ast.Load()), op=op, right=ast.Name(id='__b__', ctx=ast.Load()))
+        return self.ev_BinOp(n, _St({'__a__': a, '__b__': b}))
+
+    def _skip_loop(self, s, st: _St, it: AV):
+        """a loop whose iterations cannot be enumerated: everything it assigns is unknown afterwards"""
+        dep = _deep(it) or _mentions_id(s)
+        for x in walk_no_nested(s):
+            if isinstance(x, ast.Name) and isinstance(x.ctx, ast.Store):
+                st.env[x.id] = AV('u', None, dep)
+            elif isinstance(x, ast.Call) and isinstance(x.func, ast.Attribute) and x.func.attr in MUTATING_METHODS \
+                    and isinstance(x.func.value, ast.Name) and x.func.value.id in st.env:
+                v = st.env[x.func.value.id]
+                if v.k in ('l', 's', 'd'):
+                    v.k, v.v, v.dep = 'u', None, True if dep else _deep(v)
+            elif isinstance(x, ast.AugAssign) and isinstance(x.target, ast.Name) and x.target.id in st.env:
+                st.env[x.target.id] = AV('u', None, dep)
+        if any(isinstance(x, ast.Raise) for x in walk_no_nested(s)) and dep:
+            raise TTUndecided('a loop that raises cannot be enumerated')
+        return [(st, None)]
+
+    # ---- driver -----------------------------------------------------------------------------------------------
+    def run(self, list_param: str | None, keep_flags: bool = False, bindings: dict | None = None):
+        node = self.fi.node
+        a = node.args
+        env = {}
+        pos = [x.arg for x in a.posonlyargs + a.args]
+        defaults = dict(zip(reversed(pos), reversed(a.defaults)))
+        for k, d in zip(a.kwonlyargs, a.kw_defaults):
+            if d is not None:
+                defaults[k.arg] = d
+        inputs = self.inputs()
+        for p in pos + [x.arg for x in a.kwonlyargs]:
+            if bindings and p in bindings:
+                env[p] = bindings[p]
+            elif p == list_param:
+                env[p] = inputs
+            elif p in defaults:
+                env[p] = self.ev(defaults[p], _St())
+            else:
+                env[p] = AV('o', p)
+        env['__inputs__'] = inputs
+        outs = self.block(node.body, [_St(env)])
+        res = []
+        for st, c in outs:
+            if c is not None and c[0] == 'raise':
+                if c[1]:
+                    res.append(('refused', c[2], st.used, st.flags['built'], st.flags['asserts'], st.flags if keep_flags else None, st.env if keep_flags else None))
+                # else: a refusal for a reason this table does not vary (dropped)
+            else:
+                res.append(('accepted', None, st.used, st.flags['built'], st.flags['asserts'], st.flags if keep_flags else None, st.env if keep_flags else None))
+        return res
+
+
+def _within(a: ast.AST, root: ast.AST) -> bool:
+    return any(x is a for x in ast.walk(root))
+
+
+def _mentions_id(e: ast.AST) -> bool:
+    return any(isinstance(x, ast.Attribute) and x.attr in STORE_ATTRS for x in ast.walk(e)) or \
+        any(isinstance(x, ast.Constant) and x.value in STORE_ATTRS for x in ast.walk(e))
+
+
+_TABLES: dict = {}
+
+
+def refusal_tables(prog, m, max_n: int = 3) -> dict:
+    """Interpret merge for every short sequence of inputs.
+    -> {'mixed' | 'built' | 'fieldsets': (verdict, text, line)}; verdict True / False / None (undecided, with the reason).
+    mixed: every sequence of up to max_n inputs that mixes identified and unidentified stores reaches a raise.
+    built: the merged index is built for every uniformly identified sequence and for no unidentified one.
+    fieldsets: every sequence of up to max_n inputs whose field-set names are not all the same reaches a raise (names
+    drawn from {base}, {base, x}, {base, y}: a subset, a superset, and two different sets of the same size)."""
+    import itertools
+    key = id(prog)
+    if key in _TABLES and _TABLES[key][0] is prog:
+        return _TABLES[key][1]
+    mg = m.func('TrajectoryStore.merge')
+    chk = _check_fn(m)
+    chk_name = chk.name if chk is not None else '<none>'
+    builder = m.func('TrajectoryStore._create_merged_store_index')
+    line0 = mg.node.lineno
+    list_param = None
+    lst = _list_param(chk) if chk is not None else None
+    for c in walk_no_nested(mg.node):
+        if isinstance(c, ast.Call) and call_name(c).split('.')[-1] == chk_name and lst is not None:
+            b = _bind_call(chk, c)
+            if b is not None and isinstance(b.get(lst), ast.Name) and b[lst].id in mg.params:
+                list_param = b[lst].id
+    if list_param is None:
+        list_param = _list_param(mg)
+
+    seen_foreign = [False]
+
+    def interpret(identified, fieldsets=None):
+        tt = TruthTable(prog, mg, identified, chk_name, builder.name, fieldsets=fieldsets)
+        try:
+            res = tt.run(list_param)
+            seen_foreign[0] = seen_foreign[0] or tt.foreign_elem
+            return res, None
+        except TTUndecided as ex:
+            return None, str(ex)
+        except _Raised:
+            return None, 'an exception escaped the interpretation'
+        except RecursionError:
+            return None, 'recursion'
+
+    def line_of(attrs):
+        first = next((x for x in walk_no_nested(mg.node) if isinstance(x, ast.Attribute) and x.attr in attrs), None)
+        return first.lineno if first is not None else line0
+
+    def table(cases, show, is_uniform, what):
+        """-> (verdict, text, line, accepted uniform results)"""
+        n_paths, consulted, where, accepted, asserts, uniform = 0, False, None, [], 0, []
+        for case in cases:
+            res, why = interpret(*case)
+            if why is not None:
+                return (None, f'{show(case)}: {why}', line0), []
+            n_paths += len(res)
+            consulted = consulted or any(r[2] for r in res)
+            kinds = {r[0] for r in res}
+            if not res:
+                return (None, f'{show(case)}: every path of the interpretation is lost to a refusal the model does not vary', line0), []
+            if is_uniform(case):
+                if 'accepted' not in kinds:
+                    return (None, f'the interpretation refuses the uniform inputs {show(case)} (or loses every path): '
+                                  f'model not faithful', line0), []
+                uniform.append((case, [r for r in res if r[0] == 'accepted']))
+                continue
+            if kinds == {'refused'}:
+                where = where or next(r[1] for r in res if r[0] == 'refused')
+            elif 'refused' in kinds:
+                return (None, f'{show(case)} is refused on some paths and accepted on others', line0), []
+            else:
+                accepted.append(case)
+                asserts += sum(r[4] for r in res)
+        n_bad = sum(1 for c in cases if not is_uniform(c))
+        if not accepted:
+            return (True, f'every one of the {n_bad} sequences of up to {max_n} inputs with {what} reaches a raise '
+                          f'({len(cases)} sequences, {n_paths} paths interpreted)', getattr(where, 'lineno', line0)), uniform
+        if not consulted and seen_foreign[0]:
+            return (None, f'nothing the model varies is tested, but refusals hang on opaque tests about the inputs: {what} may be '
+                          f'tested in a way the model does not know', line0), uniform
+        if not consulted:
+            return (False, f'merge no longer refuses {what}: nothing on its paths tests it', line0), uniform
+        some = ', '.join(show(c) for c in accepted[:3])
+        return (False, f'merge no longer refuses every list with {what}: the inputs {some} reach the end of merge without a raise '
+                       f'({len(accepted)} of the {n_bad} such sequences up to length {max_n} are accepted'
+                       + (', a failing `assert` not counting as a refusal' if asserts else '') + ')', line0), uniform
+
+    def done(**kw):
+        _TABLES[key] = (prog, kw)
+        return kw
+
+    # ---- identified / unidentified
+    def show_id(case):
+        return '[' + ', '.join('identified' if x else 'unidentified' for x in case[0]) + ']'
+    id_cases = [(seq,) for n in range(1, max_n + 1) for seq in itertools.product((True, False), repeat=n)]
+    mixed, uniform = table(id_cases, show_id, lambda c: len(set(c[0])) == 1, 'mixed identifier use')
+    if mixed[0] is False:
+        mixed = (False, mixed[1] + ': a store that is neither fully identified nor unidentified is produced', line_of(ID_ATTRS))
+    sites = [c for c in walk_no_nested(mg.node) if isinstance(c, ast.Call) and call_name(c).split('.')[-1] == builder.name]
+    built_line = sites[0].lineno if sites else line0
+    if mixed[0] is None:
+        built = (None, mixed[1], built_line)
+    else:
+        bad = und = None
+        for (seq,), res in uniform:
+            b = {r[3] > 0 for r in res}
+            if len(b) == 2:
+                und = und or f'for the inputs {show_id((seq,))} the merged index is built on some paths and not on others'
+            elif b != {seq[0]}:
+                bad = bad or (
+                    f'for the inputs {show_id((seq,))} merge completes without building the merged index: the reader of a merged '
+                    f'store only consults the merged index file, so such a store opens as not indexable and look-ups by flight '
+                    f'identifier fail although every input had identifiers' if seq[0] else
+                    f'for the inputs {show_id((seq,))} merge builds a merged index although no input has identifiers')
+        built = (False, bad, built_line) if bad else (None, und, built_line) if und else \
+            (True, f'built for every uniformly identified sequence of 1..{max_n} inputs and for no unidentified one '
+                   f'({len(uniform)} sequences interpreted)', built_line)
+
+    # ---- field sets
+    A, B, C = frozenset({'base'}), frozenset({'base', 'x'}), frozenset({'base', 'y'})
+
+    def show_fs(case):
+        return '[' + ', '.join('{' + ', '.join(sorted(f)) + '}' for f in case[1]) + ']'
+    fs_cases = [((True,) * n, seq) for n in range(1, max_n + 1) for seq in itertools.product((A, B, C), repeat=n)]
+    fieldsets, _ = table(fs_cases, show_fs, lambda c: len(set(c[1])) == 1, 'differing field sets')
+    if fieldsets[0] is False:
+        fieldsets = (False, fieldsets[1], line_of(('_nc',)))
+    return done(mixed=mixed, built=built, fieldsets=fieldsets)
+
+
+# ------------------------------------------------------------------------------------------------ the merged index
+#
+# The builder of the merged index is interpreted, with the same interpreter, on model stores: every tuple of up to
+# three parts with 1, 2 or 3 trajectories each (exhaustive within these bounds, 39 tuples), every trajectory with its
+# own flight identifier, the per-part index tables as `_reindex` writes them (identifiers ascending, local positions in
+# the same order).  What the builder stores into the two variables of the merged index must be: the identifiers in
+# ascending order, and next to each identifier the position of its trajectory in the merged store, i.e. in the
+# concatenation of the parts in the order in which they were given.
+
+def _model_parts(sizes):
+    """-> (per part: (ids ascending, local positions), {identifier: position in the concatenation})"""
+    total = sum(sizes)
+    ids = [(g * 5 + 3) % 11 for g in range(total)]            # distinct for total <= 11, not monotone in g
+    tables, where, g = [], {}, 0
+    for n in sizes:
+        part = [(ids[g + i], i) for i in range(n)]
+        for fid, i in part:
+            where[fid] = g + i
+        part.sort()
+        tables.append(([f for f, _ in part], [i for _, i in part]))
+        g += n
+    return tables, where
+
+
+_MERGED: dict = {}
+
+
+def merged_index_table(ctx, prog, m, max_parts: int = 3, max_size: int = 3):
+    """-> (verdict, text, line); None = undecided"""
+    if id(prog) in _MERGED and _MERGED[id(prog)][0] is prog:
+        return _MERGED[id(prog)][1]
+    try:
+        r = _merged_index_table(ctx, prog, m, max_parts, max_size)
+    except Exception as ex:        # the interpreter must never turn into a verdict
+        if type(ex).__name__ == 'AnalysisError':
+            raise
+        r = (None, f'internal: {type(ex).__name__}: {ex}', m.func('TrajectoryStore._create_merged_store_index').node.lineno)
+    _MERGED[id(prog)] = (prog, r)
+    return r
+
+
+def _merged_index_table(ctx, prog, m, max_parts, max_size):
+    import itertools
+    builder = m.func('TrajectoryStore._create_merged_store_index')
+    line0 = builder.node.lineno
+    _, walk = builder_walk(ctx, prog, m, 'C09-R5')
+    srcs = sorted({w[1].src.split(' ', 1)[1] for w in walk if isinstance(w[1], Seq)})
+    if len(srcs) != 1:
+        return None, 'the list of inputs of the index builder is not one of its parameters', line0
+    n_runs = 0
+    for n in range(1, max_parts + 1):
+        for sizes in itertools.product(range(1, max_size + 1), repeat=n):
+            tables, where = _model_parts(sizes)
+            tt = TruthTable(prog, builder, (True,) * n, '<none>', None)
+            tt.sizes, tt.index_tables = list(sizes), tables
+            try:
+                res = tt.run(srcs[0], keep_flags=True)
+            except TTUndecided as ex:
+                return None, f'parts of sizes {sizes}: {ex}', line0
+            except (_Raised, RecursionError):
+                return None, f'parts of sizes {sizes}: an exception escaped the interpretation', line0
+            done = [r for r in res if r[0] == 'accepted']
+            if not done or len(done) != len(res):
+                return None, f'parts of sizes {sizes}: the builder does not complete on every path', line0
+            n_runs += 1
+            for r in done:
+                v, text = _check_index_writes(r[5], where, f'for parts of sizes {sizes} (in the order given)')
+                if v is False and 'records position' in text:
+                    text += ': the offset of a part is not the number of trajectories in the parts before it'
+                if v is not True:
+                    return v, text, line0
+    return True, (f'for every tuple of up to {max_parts} parts with 1..{max_size} trajectories each ({n_runs} tuples) the stored '
+                  f'index maps every identifier to the position of its trajectory in the concatenation of the parts'), line0
+
+
+def rule_merged_index(ctx, prog, m, rule):
+    """the offsets of the merged index: by bounded interpretation of the builder; when that is not decided, by the
+    shape rule of C08 (`rule_offsets`)"""
+    builder = m.func('TrajectoryStore._create_merged_store_index')
+    verdict, text, line = merged_index_table(ctx, prog, m)
+    if verdict is None:
+        from .c08 import rule_offsets
+        ctx.note(f'{rule}: bounded interpretation of the index builder not decided ({text}); shape rule used')
+        rule_offsets(ctx, m, rule=rule)
+        return
+    ctx.ob(rule, builder, 'merged index maps each identifier to the position of its trajectory in the merged store', verdict,
+           text, line=line)
+
+
+# ------------------------------------------------------------------------------------------------ add: all or none
+#
+# `add` is interpreted for every combination of "identifier use of the store" (not fixed yet / identified / unidentified)
+# and "the trajectory" (has no flight_id field / has the field set to None / has an identifier).  The store and the
+# trajectory are model objects: `self.indexable` and the `flight_id` attribute are known, every other attribute and every
+# call is opaque (a refusal that hangs on one of those is somebody else's).  Required: a raise exactly when the use is
+# fixed and differs from the trajectory's; the first addition fixes the use; a later one leaves it alone.
+
+def add_identifier_table(prog, m):
+    """-> (verdict, text, line); None = undecided"""
+    add = m.func('TrajectoryStore.add')
+    line0 = add.node.lineno
+    if len(add.params) < 2:
+        return None, 'signature of add', line0
+    self_p, traj_p = add.params[0], add.params[1]
+    first = next((x for x in walk_no_nested(add.node) if isinstance(x, ast.Attribute) and x.attr == 'indexable'), None)
+    line = first.lineno if first is not None else line0
+    names = {None: 'whose identifier use is not fixed yet', True: 'of identified trajectories', False: 'of unidentified trajectories'}
+    kinds = {'absent': 'without a flight_id field', 'none': 'whose flight_id is None', 'set': 'with a flight identifier'}
+    n_paths = 0
+    for use in (None, True, False):
+        for kind in ('absent', 'none', 'set'):
+            has = kind == 'set'
+            store = AV('o', ('model', {'indexable': AV('c', use, True)}, {'indexable'}))
+            attrs = {} if kind == 'absent' else {'flight_id': AV('c', None if kind == 'none' else 4711, True)}
+            traj = AV('o', ('model', attrs, {'flight_id'}))
+            tt = TruthTable(prog, add, (), '<none>', None)
+            tt.enter_helpers = False
+            try:
+                res = tt.run(None, keep_flags=True, bindings={self_p: store, traj_p: traj})
+            except TTUndecided as ex:
+                return None, f'a store {names[use]}, a trajectory {kinds[kind]}: {ex}', line0
+            except (_Raised, RecursionError):
+                return None, 'an exception escaped the interpretation', line0
+            if not res:
+                return None, f'a store {names[use]}, a trajectory {kinds[kind]}: every path is lost', line0
+            n_paths += len(res)
+            refused = [r for r in res if r[0] == 'refused']
+            accepted = [r for r in res if r[0] == 'accepted']
+            want_refusal = use is not None and has != use
+            if want_refusal and accepted:
+                return False, (f'a store {names[use]} accepts a trajectory {kinds[kind]}'
+                               + (' on some paths: the identifier check only runs under a further condition, which is '
+                                  'session-local state (e.g. the cache is empty at the start of an append session)' if refused else '')
+                               + ': add accepts a trajectory whose identifier use differs from the store, which breaks '
+                                 '"fully identified or not at all"'), line
+            if not want_refusal and refused:
+                return False, f'a store {names[use]} refuses a trajectory {kinds[kind]}', getattr(refused[0][1], 'lineno', line)
+            for r in accepted:
+                fin = r[6][self_p].v[1].get('indexable') if _is_model(r[6].get(self_p, AV('u'))) else None
+                want = has if use is None else use
+                if fin is None or fin.k != 'c' or fin.v is not want or (fin.v is None):
+                    return False, (f'after adding a trajectory {kinds[kind]} to a store {names[use]} the identifier use of the store is '
+                                   f'`{fin.v if fin is not None and fin.k == "c" else "?"}`, expected `{want}`: '
+                                   + ('indexable is not fixed by the first addition' if use is None else
+                                      'a later addition changes the identifier use of the store')), line
+    return True, (f'a raise exactly when the identifier use of the store is fixed and differs from the trajectory\'s; the first '
+                  f'addition fixes it (9 combinations, {n_paths} paths interpreted)'), line
+
+
+def _check_index_writes(flags, where, what):
+    """the last stores into the two index variables map every identifier (ascending) to its position -> (verdict, text)"""
+    last = {}
+    for k, v in flags.get('writes', []):
+        last[k] = v
+    if set(last) != {'flight_id', 'trajectory_index'}:
+        return None, f'stores into the index variables not recognised (found {sorted(last)})'
+    F, T = _concrete(last['flight_id']), _concrete(last['trajectory_index'])
+    if last['flight_id'].k not in ('l', 'a', 't') or last['trajectory_index'].k not in ('l', 'a', 't') or F is _NO or T is _NO:
+        return None, f'{what}: what is stored into the index variables could not be evaluated'
+    F, T = list(F), list(T)
+    if len(F) != len(T) or sorted(F) != sorted(where):
+        return False, f'{what} the index holds the identifiers {F} next to the positions {T}: not one entry per trajectory'
+    if F != sorted(F):
+        return False, f'{what} the identifiers are stored as {F}: not in ascending order, while the look-up bisects'
+    bad = [(f, t, where[f]) for f, t in zip(F, T) if where[f] != t]
+    if bad:
+        f, t, w = bad[0]
+        return False, (f'{what} the trajectory with identifier {f} is at position {w}, but the index records position {t} for it '
+                       f'({len(bad)} of {len(F)} entries are wrong)')
+    return True, ''
+
+
+_REINDEX: dict = {}
+
+
+def reindex_table(prog, m, max_parts: int = 3, max_size: int = 3):
+    """`_reindex` interpreted on a model store (identified, stale, with files) whose base field set lives in up to
+    max_parts files with 0..max_size trajectories each: what it stores into the two index variables maps every identifier
+    (ascending) to the position of its trajectory in the store.  -> (verdict, text, line); None = undecided"""
+    import itertools
+    if id(prog) in _REINDEX and _REINDEX[id(prog)][0] is prog:
+        return _REINDEX[id(prog)][1]
+    fn = m.func('TrajectoryStore._reindex')
+    line0 = fn.node.lineno
+
+    def done(r):
+        _REINDEX[id(prog)] = (prog, r)
+        return r
+    n_runs = 0
+    for n in range(1, max_parts + 1):
+        for sizes in itertools.product(range(0, max_size + 1), repeat=n):
+            if sum(sizes) > 9 or sum(sizes) == 0:
+                continue
+            _, where = _model_parts(sizes)
+            ids = sorted(where, key=lambda f: where[f])
+            groups, g = [], 0
+            for k, sz in enumerate(sizes):
+                arr = AV('a', [AV('c', x, True) for x in ids[g:g + sz]], True)
+                groups.append(AV('o', ('model', {'variables': AV('d', {'flight_id': arr}, True)}, {'variables'})))
+                g += sz
+            files = AV('o', ('model', {'groups': AV('o', ('anykey', AV('l', groups)))}, {'groups'}))
+            store = AV('o', ('model', {'indexable': AV('c', True), 'index_stale': AV('c', True), 'nc_linked': AV('c', True),
+                                      '_write_enabled': AV('c', True), '_nc': AV('o', ('anykey', files)),
+                                      'index_group': AV('o', 'index group of the store')},
+                             {'indexable', 'index_stale', 'nc_linked', '_nc', 'index_group'}))
+            tt = TruthTable(prog, fn, (), '<none>', None)
+            tt.enter_helpers = False
+            try:
+                res = tt.run(None, keep_flags=True, bindings={fn.params[0]: store})
+            except TTUndecided as ex:
+                return done((None, f'files of sizes {sizes}: {ex}', line0))
+            except (_Raised, RecursionError):
+                return done((None, f'files of sizes {sizes}: an exception escaped the interpretation', line0))
+            acc = [r for r in res if r[0] == 'accepted']
+            if not acc or len(acc) != len(res):
+                return done((None, f'files of sizes {sizes}: _reindex does not complete on every path', line0))
+            n_runs += 1
+            for r in acc:
+                v, text = _check_index_writes(r[5], where, f'for a store whose files hold {sizes} trajectories')
+                if v is not True:
+                    return done((v, text, line0))
+    return done((True, f'for every store of up to {max_parts} files with 0..{max_size} trajectories each ({n_runs} stores) the stored '
+                       f'index maps every identifier, in ascending order, to the position of its trajectory', line0))
